@@ -12,1292 +12,3308 @@ Definition show_fres (r : fres) : string :=
   end.
 Definition check (rs : list rune) : string := digest (show_fres (format_res rs)).
 Definition full (rs : list rune) : string := show_fres (format_res rs).
-Eval vm_compute in ("<<<M1613>>>" ++ check (runes_of_ascii "// top
-  options 	 // c0
-  	{ 	 // c1
-StringPrefixLenType
-= 
-  // c3
-  	u8 // c4
-	  ;	// c5a
-		// c5b
+Eval vm_compute in ("<<<M3949>>>" ++ check (runes_of_ascii "// top
+options 
+      // c0
+{	// c1
 
-ArrayPrefixLenType// c6a
-// c6b
-	=// c7a
-	// c7b
+LittleEndian 
+        // c2
+=	// c3a
 
-  u32
-	; 
-    // c9
-  FixedStringPadFromLeft =  
-      // c11
-      false // c12a
+	// c3b
+	true // c4
 
-// c12b
+  ;	// c5
 
-;	// c13
-FixedStringPadChar = // c15
+	StringPrefixLenType // c6
+    	=  
+      // c7
+		u8// c8a
+// c8b
+; 
+      // c9
+    	ArrayPrefixLenType	// c10a
+	// c10b
+=  u16	; 
+FixedStringPadChar	// c14
+    = 
+	// c15
+	'0'  // c16a
+    	// c16b
+  ; 
+    // c17
+  JavaPackage  =	// c19
+  ""com.example.msg""// c20
+  	;// c21
+  GoPackage=	// c23a
+    // c23b
+	""msg""	; 
+        // c25
+GoModule=""example.com/msg""
+// c28
+;	} 
+    // c30
 
-' '  // c16a
-	// c16b
-    ;
+MetaData	// c31a
+	  // c31b
+	Meta
+{
 
-    } 
-    // c18
-packet	Party  // c20a
-    	// c20b
-
-	{repeat 
-  // c22
-i16 	 // c23a
-// c23b
-	  Qty 
-
-    // c24
-, 
-    // c25
-  	repeat // c26
-    string
-
-Tail 	 // c28a
-      // c28b
-
-  , 
-    // c29
-	i8  OrderId, // c32
-  i8	msgKind// c34
-    , 
-
-    // c35
-    	} packet// c37a
+u32  // c34
+    SeqNum 
+// c35
+    `sequence number`
+, // c37a
 
   // c37b
-	  Ack
-	{  Party	// c40
-, repeat
-        // c42
+  char[  // c38
+  	8	// c39a
+	// c39b
+]
 
-	InRef20 	 // c43a
-	  // c43b
-    {
-Party 
-        // c45
-		, // c46a
-      // c46b
-	int8// c47a
-    // c47b
-	tag7 	 // c48
-    ,
+// c40
 
-char[
-	    // c50
-  	5
-] 
-    // c52
-    	OrderId// c53a
-	// c53b
-	  ,	// c54
-		zchar[  // c55
+Symbol  // c41
+  `symbol`// c42a
+// c42b
+, 	 // c43
+  zchar[ 
+5
 
-	7  // c56a
-	// c56b
-      ] 
-      // c57
-	Tail 	 // c58
-
-, 	 // c59a
-
-  // c59b
-    char[]
-    // c60
-    count 	 // c61a
-
-// c61b
-, 
-	    // c62
-
-  InPrice45 	 // c63
-{ 
-    // c64
-Party
-,
-	// c66
-  	char[	// c67
-  1	// c68
-    ] // c69
-	Px  // c70
-		,
-	} , 
-	    // c73
-    } ,// c75
-  char[ 
-	    // c76
-  12  ]
-    price // c79a
-// c79b
-  	, 	 // c80a
-// c80b
-	int8	sym  // c82a
-
-// c82b
-
-,  
-      // c83
-} 
-packet 
-// c85
-  Reject {	// c87a
-
-  // c87b
-  	repeat	// c88
-  InPrice47 // c89
-	{
-	Party// c91a
-	// c91b
-    , 
-
-// c92
-}  // c93a
-  // c93b
-    , zchar[// c95a
-  // c95b
-4 
-
-// c96
-    ]  
-      // c97
-x 
-	// c98
-	,
-repeat
-	Ack ,
-zchar[ 2	// c104
-	] 
-  // c105
-	  Ref
-,
-
-    repeat  // c108a
-    	// c108b
-
-Party
-// c109
-	,// c110
-  }// c111
-packet
-        // c112
-    Cancel // c113a
-  // c113b
-  {  // c114a
-		// c114b
-	  Reject	// c115
-
-	,  // c116
-	repeat 
-// c117
+    // c45
+    ]  // c46
+    ZSym	// c47a
+	// c47b
+  `z symbol` 	 // c48
+	, 
+    // c49
   string
 
-f1 	 // c119a
-  // c119b
-    , // c120
-	uint16 	 // c121a
+    Note	,	// c52
+Symbol 
+    // c53
+		AltSymbol`alias of symbol` 	 // c55
+    ,f64
 
-  // c121b
-    OrderId 
-    // c122
-	,	// c123
-  u8
+    // c57
+	Price 
+	// c58
+  , 	 // c59
+}packet 	 // c61a
+  // c61b
+	Inner
+        // c62
 
-    Acct	// c125a
-  // c125b
-    , 
-int8 // c127a
-
-// c127b
-  msgKind
-
-    , // c129a
-    // c129b
-  }
-root packet 	 // c132a
-
-// c132b
-      Fill	{u8 	 // c135a
-    	// c135b
-  count
-
-    , 
-	    // c137
-char[]
-	tag7// c139
-    , 
-
-    // c140
-      zchar[ // c141a
-		// c141b
-  7// c142a
-// c142b
-    ]  // c143a
-// c143b
-Acct
-
-// c144
-    ,  // c145
-		u32 // c146
-
-OrderId
-	    // c147
-  	,  // c148
-  	u32 
-        // c149
-	Note// c150
-    @lengthOf(  // c151a
-    // c151b
-  Body
-
-// c152
-
-  )	// c153a
-      // c153b
-  , 	 // c154
-
-match  // c155a
-// c155b
-    OrderId
-	// c156
-    as
-    // c157
-Body 	 // c158a
-
-  // c158b
-
-  { // c159a
-    // c159b
-    106 
-	// c160
-		: 	 // c161a
-  // c161b
-  Cancel  // c162
-
-, 	 // c163
-  196: 	 // c165
-	Reject  // c166
-	, 
-    // c167
-    74	// c168a
-  // c168b
-  : 
-	    // c169
-  Party , 
-
-// c171
-  75 	 // c172
-  	: Ack, // c175a
-		// c175b
-
-}
-	,  // c177a
-  // c177b
-} 	 // c178a
-  // c178b
-")).
-Eval vm_compute in ("<<<M1895>>>" ++ check (runes_of_ascii "// top
-options {
-    LittleEndian = false;// c5a
-    // c5b
-    StringPrefixLenType = u16;// c9
-    ArrayPrefixLenType = u64;
-    // c13
-    FixedStringPadFromLeft = true;// c17a
-    // c17b
-    FixedStringPadChar = ' ';// c21
-}// c22a
-
-// c22b
-packet Logon {
-    // c25
-    u16 Tail,
-    // c28
-    repeat string x,// c32
-    i16 count,
-    @leftPad('0')
-    // c39a
-    // c39b
-    char[3] Note,
-}
-
-packet Fill {
-    // c48a
-    // c48b
-}
-
-// c49
-packet Heartbeat {
-    // c52a
-    // c52b
-}
-
-// c53
-packet Reject {
-    string msgKind,// c59a
-    // c59b
-    repeat Logon,// c62a
-    // c62b
-    InFlags25 {
-        // c64
-        repeat InPrice29 {
-            // c67
-            u8 price,// c70
-            Logon,// c72a
-            // c72b
-            repeat char[1] Note,// c78a
-            // c78b
-        },
-        // c80
-        char[] x,
-        // c83
-        Fill,
-        // c85
-    },
-    // c87
-    repeat Heartbeat,
-    // c90
-}// c91
-
-root packet Order {
-    InNote88 {
-        // c97
-        repeat i32 Acct,// c101
-        repeat i16 clOrdID,// c105a
-        // c105b
-        repeat Logon,// c108
-    },// c110a
-    // c110b
-    u16 tag7,// c113a
-    // c113b
-    match tag7 as Body {
-        // c118a
-        // c118b
-        [14, 22] : Logon,
-        // c126
-        55 : Heartbeat,
-        // c130
-        93 : Reject,
-        // c134
-        13 : Fill,
-    },
-}
-// c141")).
-Eval vm_compute in ("<<<M371>>>" ++ check (runes_of_ascii "MetaData i8i8
-    // trailing space 
-    { Pad rootA
-`tab	here` //
-, x_y_z
-metadata
-,zchar[ 255] x_y_z `doc` , metadata i8i8 , uint8x
-    leftPad
-    `say ""hi""` , int32
-charz
-    `" ++ [28040; 24687; 31867; 22411]%N ++ runes_of_ascii "` , } packet
-len {  char[
-    255 ]
-f32a//x
-@calculatedFrom(
-""a	b"") `// not a comment` ,f64 u8x
-//
-// `tick` ""quote"" 'q'
-,
-options1
-{string charz `u8 x,` ,string_ // packet A { u8 x, }
-@calculatedFrom( // " ++ [27880; 37322]%N ++ runes_of_ascii "
-""a	b""
-) , repeat falsey {a1 `it's`  , stringy
-@lengthOf( Foo
-    )
-,	repeat  zchar[ 10  ]Logon
-`line1
-line2` ,  uint16 repeatCount @lengthOf( options1 )
-    `doc`
-,	} , repeat //x
-u packetx, } , falsey
-x_y_z, char[]matchKey
-`u8 x,`
-, } packet float
-{ @lengthOf( Foo ) u16 a1 `crlf
-line` // `tick` ""quote"" 'q'
-,
-    // `tick` ""quote"" 'q'
-    @leftPad( )
-@lengthOf( string_// `tick` ""quote"" 'q'
-)
-    match
-asx as lengthOf{ """"
-: f32a , }
-,roots {
-f32 A `a\` , i8 trueish @lengthOf(rootA )
-    ,}
-    ,
-options1
-    @lengthOf(_x
-    )
-    , /// triple
-@lengthOf( asx// `tick` ""quote"" 'q'
-)
-    charz
-    // " ++ [27880; 37322]%N ++ runes_of_ascii "
-    ,
-    zchar[ 10 ] a1
-    @calculatedFrom(
-    ""// no comment"")
-`say ""hi""`
-, //x
-uint16 x @calculatedFrom( ""a\\"" )	,}")).
-Eval vm_compute in ("<<<M354>>>" ++ check (runes_of_ascii "// a // b
-packet chars {
-    i64_ tag `say ""hi""` , }
-// " ++ [128512]%N ++ runes_of_ascii " emoji
-// `tick` ""quote"" 'q'
-packet tag {
-}// c
-packet roots
-    { repeat //x
-x_y_z `
-`	, } packet lengthOf { // c
-i64 int`{ , }` , @lengthOf( trueish
-    ) @lengthOf( stringy // packet A { u8 x, }
-) // @lengthOf(
-repeat
-x repeatCount`u8 x,`,
-    char[]
-rootA ,uint16 int @calculatedFrom( // " ++ [128512]%N ++ runes_of_ascii " emoji
-""\" ++ [233]%N ++ runes_of_ascii """ ) `say ""hi""`/// triple
-,@lengthOf(
-string_
-    // a // b
-    )char[]
-    int @calculatedFrom(
-""a\\"" )  , @tag( 0 )@calculatedFrom(""\n""  )// " ++ [128512]%N ++ runes_of_ascii " emoji
-i32
-string_  @lengthOf(
-    falsey ) `say ""hi""` ,@tag(3
-) @lengthOf( BodyLength
-) repeat Z9_ {match// " ++ [27880; 37322]%N ++ runes_of_ascii "
-T // @lengthOf(
-as charz { // packet A { u8 x, }
-[ 255
-, ""a\""b"" ,
-    """" , 00
-    , 0123456789 ,""\n"" , ""\" ++ [233]%N ++ runes_of_ascii """//x
-]:
-x_y_z
-3 : Foo ,
-    // @lengthOf(
-    }
-    ,char[ 4294967296 ] calculatedFrom@lengthOf( Z9_ )	, } , i64
-    trueish
-    @lengthOf( /// triple
-T) `" ++ [233]%N ++ runes_of_ascii "` , @lengthOf( body
-)
-@lengthOf(
-matchKey // `tick` ""quote"" 'q'
-) tag trueish `` , } packet Foo {
-}")).
-Eval vm_compute in ("<<<M244>>>" ++ check (runes_of_ascii "MetaData falsey { string tag
-`// not a comment` , } packet x
-{ char[]int @lengthOf( u)
-`u8 x,`
-    ,
-@calculatedFrom( ""abc"" ) @leftPad ('0')@tag( 255) repeat T {
-f32a
-`" ++ [233]%N ++ runes_of_ascii "`  ,
-u128 @calculatedFrom( """ ++ [128512]%N ++ runes_of_ascii """ ) // a // b
-,
-    // c
-    repeat
-float { char[] x ,}
-    ,
-},@lengthOf( Header
-)string_ @lengthOf(Logon )//	t
-, body
-Pad `" ++ [28040; 24687; 31867; 22411]%N ++ runes_of_ascii "`,
-}packet matchKey { }
-    //	t
-    packet options1	{
-    string	a1 @calculatedFrom( ""{,}"" ) ,}	packet x {match a1 as i64_ { 1
-: Packet , ""abc"": crc ,
-    }
-    , int8
-calculatedFrom@lengthOf( i8i8
-    //	t
-    ),
-    @calculatedFrom( """"	)
-@calculatedFrom( """ ++ [128512]%N ++ runes_of_ascii """ ) lengthOf
-`a\`, char[1  ] u8x , zchar[ 007]// packet A { u8 x, }
-metadata  @calculatedFrom(// a // b
-""\n"" ) , @lengthOf(
-len) @rightPad ( ) char[
-    // " ++ [27880; 37322]%N ++ runes_of_ascii "
-    10 // packet A { u8 x, }
-]	Pad , repeat options1 `{ , }`,
-    char[] tag @lengthOf( Packet ),}
-")).
-Eval vm_compute in ("<<<M1654>>>" ++ check (runes_of_ascii "packet chars {
-}// c
-
-packet len {
-    repeat char[] Foo,
-    @rightPad('0')
-    zchar[007] a1 `say ""hi""`,
-    repeat BodyLength leftPad,
-}
-
-root packet u8x {
-    f64 lengthOf @calculatedFrom(""CRC32""),
-    string zchar @lengthOf(int) `crlf
-        line`,
-    int calculatedFrom,
-    @lengthOf(As)
-    match falsey as asx {
-        65535 : _x,
-        [1] : u,
-        007 : uint8x,
-        00 : f32a,
-        """ ++ [233]%N ++ runes_of_ascii "t" ++ [233]%N ++ runes_of_ascii """ : Packet,
-        [42, ""a\""b""] : len,
-    },
-    @lengthOf(stringy)
-    @calculatedFrom(""1"")
-    repeat A {
-        char[] lengthOf `it's`,
-    },
-    _x `" ++ [28040; 24687; 31867; 22411]%N ++ runes_of_ascii "`,
-    @leftPad('0')
-    match Foo as crc {
-        10 : trueish,
-        42 : Pad,
-        [4294967296, ""// no comment"", ""{,}""] : float,
-    },
-    @lengthOf(u8x)
-    a1 @calculatedFrom(""\" ++ [233]%N ++ runes_of_ascii """),
-}")).
-Eval vm_compute in ("<<<M1739>>>" ++ check (runes_of_ascii "
-
-  options{ 
-StringPrefixLenType =
-u16
-	; ArrayPrefixLenType 
-= u32; FixedStringPadFromLeft=false ;
-    FixedStringPadChar =
-'0' ;
-
-}  packet  Logout{	f64 
-f1
-, 
+{	// c63
+  	u8  a// c65
+  	,	// c66a
+  // c66b
 i16
-Note
-,	@rightPad ( '\x00'
 
-)char[
-11 ]
+    b
 
-    Flags
+    , 	 // c69a
+
+	// c69b
+string
+	c 
+    // c71
+
+,	// c72
+  }	// c73
+
+packet
+Inner2// c75
+
+  { 	 // c76a
+// c76b
+u8  a2 
+// c78
+
+, 	 // c79a
+// c79b
+	  char[
+	    // c80
+  3	] 	 // c82
+      c2
+    // c83
+,	// c84a
+
+	// c84b
+    }  packet // c86
+    Logon{
+    // c88
+  u8 // c89
+	x  
+  // c90
+
+	,	// c91
+
+string 
+	    // c92
+	user
+// c93
+    	,
+
+repeat
+u16
+// c96
+codes
+// c97
+	  ,
+}	// c99a
+	// c99b
+  packet  // c100
+
+	Logout // c101a
+
+// c101b
+	{	// c102
+u16 reason
+
 ,
 
-    }	packet
-Cancel
-    {
-	float64 msgKind,} packet Reject{ InQty43
-{
-	float32 sym,
-	char[
-10	]
-Tail
-,
+// c105
+    }
+    // c106
+  packet 
+	// c107
+		Empty// c108
+	{
+    } // c110a
+    	// c110b
 
-    uint8 
-venue ,uint16 f1
+root  // c111
+  packet 	 // c112a
+	// c112b
+	  Msg  // c113a
+  // c113b
+	{// c114a
+	  // c114b
 
-    , char[ 
-9
-]
-    Acct
+	u8
+// c115
+  su8  
+      // c116
 
+,  
+  // c117
+	uint8 
+  // c118
+luint8 
+    // c119
+  ,	u16// c121
+su16
+	, uint16	// c124
+  luint16 // c125
+,	// c126a
+		// c126b
+  u32 
+    // c127
+	su32	// c128
+      ,
+    // c129
+
+uint32 	 // c130a
+    	// c130b
+	luint32  // c131a
+  // c131b
+    ,	// c132
+	u64 // c133a
+
+  // c133b
+  su64  // c134
+  ,// c135
+  uint64	// c136a
+// c136b
+luint64 
+	    // c137
+    , // c138a
+	  // c138b
+i8  // c139a
+
+  // c139b
+  si8
+	,	int8 	 // c142
+lint8
 , 
-}
-, }
-	packet
-Trade
-	{	char[]x
 
+    // c144
+	i16	// c145
+si16 ,  int16
+lint16
+// c149
+,	i32
+    si32  // c152
+  ,
+
+    int32// c154a
+  // c154b
+    	lint32 
+	// c155
+
+	,// c156a
+  // c156b
+	i64 si64 
+
+    // c158
 ,
-	zchar[ 
-6
+// c159
+    int64  lint64 
+	// c161
+, 
+// c162
+f32
+    // c163
+  sf32	// c164a
+  // c164b
+
+	,
+    // c165
+float32 	 // c166a
+
+	// c166b
+  lfloat32  // c167
+  	,
+
+f64// c169
+	sf64// c170
+  	,	// c171a
+// c171b
+
+  float64 	 // c172
+lfloat64
+    // c173
+
+	,
+
+char[ 	 // c175a
+	// c175b
+6 	 // c176
+		] // c177a
+
+	// c177b
+    	fsplain 	 // c178a
+    // c178b
+
+  , 	 // c179a
+// c179b
+	@leftPad 	 // c180a
+  // c180b
+    ( '0'  )
+	char[
+	    // c184
+  4// c185
+    	] 
+        // c186
+    fs0 
+// c187
+
+, // c188a
+	// c188b
+
+@rightPad( 
+      // c190
+		'0'
+)
+
+char[ 	 // c193a
+
+	// c193b
+5// c194
+  ] 
+
+    // c195
+    	fs1 // c196
+,
+    @leftPad
+
+(	// c199
+	' ' // c200a
+	  // c200b
+    )// c201
+char[
+    6
+	// c203
+] 
+// c204
+	fs2 
+	// c205
+	  ,  // c206a
+
+// c206b
+@rightPad
+	// c207
+    (  // c208a
+  // c208b
+  ' ')	// c210a
+// c210b
+
+char[ 7  // c212a
+
+// c212b
+] 	 // c213
+		fs3 , @leftPad 	 // c216a
+// c216b
+( // c217
+
+'\x00' // c218a
+  	// c218b
+	)  char[  // c220
+      8	// c221
+  ]	// c222
+	fs4  // c223
+      , // c224
+@rightPad
+
+    ( 
+	    // c226
+	'\x00'  // c227
+) 	 // c228
+
+  char[ 	 // c229
+  9 // c230
+	]
+fs5	// c232a
+    	// c232b
+	, 	 // c233
+  @leftPad  // c234
+    (
+	    // c235
+  )// c236a
+	// c236b
+  char[ 	 // c237
+
+10// c238a
+      // c238b
+    	]fs6// c240
+,
+	    // c241
+  @rightPad  // c242
+    ( // c243a
+  // c243b
+) 
+    // c244
+    char[ 
+      // c245
+    11
+    ]
+    // c247
+
+  fs7 
+      // c248
+  ,// c249a
+  // c249b
+
+zchar[
+        // c250
+
+7 
+
+// c251
+
+  ] // c252a
+  // c252b
+	  fz
+	    // c253
+      ,
+	@leftPad 	 // c255a
+  // c255b
+    (  
+      // c256
+'0'  // c257
+	)	// c258a
+  // c258b
+  zchar[
+3  // c260
+
+  ] 	 // c261a
+// c261b
+	  fzl0 
+	    // c262
+  , 
+    // c263
+string  // c264a
+	  // c264b
+	s1  // c265
+
+  `doc` // c266a
+
+	// c266b
+  , 	 // c267
+char[]
+	    // c268
+
+	s2
+        // c269
+
+  ,
+        // c270
+	Inner// c271
+	,	// c272a
+  // c272b
+    Sub
+// c273
+	{// c274
+	u8	// c275a
+  	// c275b
+	q 
+// c276
+      ,string // c278a
+    // c278b
+    w
+    ,  // c280
+
+  Deep// c281
+  { // c282
+		u16 
+	// c283
+  z// c284
+  ,
+// c285
+	repeat
+i32 // c287a
+  	// c287b
+
+  zs 
+    // c288
+,
+        // c289
+  	} 
+
+    // c290
+	  ,	// c291a
+// c291b
+	}
+
+    ,  // c293a
+// c293b
+  repeat	// c294a
+
+	// c294b
+  u8	// c295a
+  	// c295b
+    	ru8 // c296
+	,	// c297
+		repeat  // c298a
+
+// c298b
+	u16
+
+    ru16	// c300a
+// c300b
+, repeat	// c302a
+  // c302b
+	u32  // c303
+    ru32 // c304a
+	// c304b
+  , 	 // c305
+  	repeat	// c306
+  u64
+
+    ru64	,
+repeat
+
+// c310
+      i8  // c311
+	ri8 // c312a
+// c312b
+  ,
+    // c313
+repeat
+    i16
+// c315
+ri16  // c316
+	, 
+	    // c317
+	repeat
+
+i32
+
+    ri32
+    // c320
+  , 
+      // c321
+repeat
+    i64
+	ri64
+
+    ,  // c325
+repeat// c326
+	f32// c327a
+      // c327b
+    rf32 	 // c328
+    	,// c329a
+    // c329b
+	repeat
+    // c330
+f64  rf64	// c332
+  ,	// c333
+repeat 
+
+    // c334
+
+string 
+// c335
+
+rstr// c336
+, 	 // c337
+  repeat
+	    // c338
+  char[]
+    rstr2	// c340a
+  // c340b
+	  ,	repeat	char[	// c343a
+    // c343b
+	3	// c344
+  ]  // c345
+
+	rfs
+
+    ,
+    repeat // c348
+    zchar[ 
+
+// c349
+
+  3  // c350a
+// c350b
+
+	] 	 // c351a
+  // c351b
+
+	rfz , 
+	// c353
+repeat// c354
+Inner2 	 // c355a
+	// c355b
+
+,repeat  Grp	// c358
+
+  {	u8 	 // c360a
+// c360b
+    k
+	,	// c362a
+    // c362b
+    char[  // c363a
+
+// c363b
+	2
 ]
-Note,repeat
-Reject , 
-}root
-    packet
-Order
 
-    { 
-Cancel
-, Logout,
-u64
-Acct ,u32
-OrderId ,
-match  OrderId
-as
+    v	// c366a
+// c366b
+,	// c367
+	} 
+      // c368
+    , 	 // c369
+  SeqNum// c370
+  , 	 // c371
+SeqNum  seq2
 
-Body { [
-127,
+    // c373
+    	,
 
-    70  ]  :
-Reject
+repeat SeqNum
+	// c376
+    seqs  // c377
+
 ,
-177	: Trade
+Symbol	// c379
+,	// c380
+  AltSymbol
+    // c381
+	alt
+    // c382
+    ,  // c383a
+	// c383b
+    ZSym,
+Note// c386
+	, 
+    // c387
+	  repeat  // c388
+	Symbol // c389
+	syms ,
 
-    , 58: Logout
+    Price
+
+px
+
+    // c393
+    , 	 // c394a
+  	// c394b
+  u16 MsgType// c396a
+
+// c396b
+,	// c397
+  u32
+BodyLen// c399
+    @lengthOf(// c400a
+
+// c400b
+  Body
+	)// c402a
+  // c402b
     , 
-75 
-:
-Cancel  ,
-}
-	,
-	u32 
-Tail
+// c403
 
-@calculatedFrom(
-""CR\
-C32""
-	), }")).
-Eval vm_compute in ("<<<M1460>>>" ++ check (runes_of_ascii "options {
-    LittleEndian = true;
-    FixedStringPadFromLeft = true;
-    FixedStringPadChar = '0';
-}
-packet Trade {
-    string clOrdID,
-    char[] Px,
-    u32 x,
-}
-packet Reject {
-    int32 Side2,
-    repeat char[3] clOrdID,
-    i32 tag7,
-}
-packet Leg {
-}
-root packet Quote {
-    string Side2,
-    string lastPx,
-    InSym58 {
-        int16 OrderId,
-        Reject,
-        i8 Qty,
-        i64 venue,
-        f32 Note,
-    },
-    char[] count,
-    zchar[9] price,
-    u16 Qty,
-    match Qty as Body {
-        69 : Leg,
-        48 : Trade,
-        51 : Reject,
-    },
-    u16 Acct @calculatedFrom(""CR\
-C32""),
+	match// c404a
+	  // c404b
+MsgType  // c405
+		as // c406a
+// c406b
+      Body { 
+    // c408
+  1 
+  // c409
+    	:  // c410
+		Logon 	 // c411
+, // c412
+  [  // c413a
+	// c413b
+    2  // c414a
+    // c414b
+    , 
+    // c415
+  3 ]
+    // c417
+	  : 	 // c418a
+	// c418b
+Logout  // c419a
+		// c419b
+  ,	// c420
+  7
+    // c421
+  	:	// c422a
+    // c422b
+	Logon
+
+    ,
+
+9 
+
+    // c425
+
+  : Empty // c427a
+		// c427b
+
+,// c428a
+	// c428b
+	  },	// c430a
+	// c430b
+	u32 	 // c431a
+	// c431b
+Checksum// c432
+	@calculatedFrom(
+    // c433
+  	""CRC32""	// c434a
+
+// c434b
+    ) 
+    // c435
+		, 
+    // c436
 }
 ")).
-Eval vm_compute in ("<<<M159>>>" ++ check (runes_of_ascii "packet BodyLength
-    { repeat string As `{ , }`
-,	@tag(4294967296 ) match Pad as
-lengthOf { //	t
-007	: // `tick` ""quote"" 'q'
-i8i8 /// triple
-,""a\""b"": //x
-msg_type,	}, repeat
-    uint32 Z9_ , @tag( 00 )// `tick` ""quote"" 'q'
-charz
-    , string
-    // trailing space 
-    i8i8 // packet A { u8 x, }
-@lengthOf( BodyLength ) ,@calculatedFrom(
-    ""{,}""  )
-    // a // b
-    @leftPad// " ++ [27880; 37322]%N ++ runes_of_ascii "
-( )
-leftPad metadata  ,
-//
-// " ++ [128512]%N ++ runes_of_ascii " emoji
-string i8i8 ``
-    , uint64 trueish@calculatedFrom(
-""1""
-/// triple
-// " ++ [27880; 37322]%N ++ runes_of_ascii "
-) `
-`, }")).
-Eval vm_compute in ("<<<M1781>>>" ++ check (runes_of_ascii "MetaData stringy
-        //x
-	  {A
-MetaDataX
-
-    , }
-    packet x
-
-{	@calculatedFrom(/// triple
-	  """"
-) char[]
-body `` 
-    /// triple
-
-  // c
-
-	,
-	matchKey @lengthOf( 
-uint8x )  ,
-	} 	 // packet A { u8 x, }
-options { 
-T
-    // `tick` ""quote"" 'q'
-    	// trailing space 
-	  =true
-;o  // packet A { u8 x, }
-	= 
-
-    // c
-//	t
-    '0'
-
-;
-asx 
-	    //
-=4294967296 
-x =  ""CRC32""o  = 
-zchar[ 7
-
-]
-}options	{/// triple
-  As 
-=	false; } //x
- 
-")).
-Eval vm_compute in ("<<<M1545>>>" ++ check (runes_of_ascii "packet float {
-    // c
-}
-
-packet u128 {
-    @calculatedFrom(""1"")
-    asx x_y_z `" ++ [28040; 24687; 31867; 22411]%N ++ runes_of_ascii "`,
-}
-
-root packet u8x {
-    repeat uint8x T,
-}
-
-packet leftPad {
-    i64_,
-    @leftPad('0')
-    repeat tag,
-    repeat uint8x {
-        matchKey @calculatedFrom(""abc""),
-        string charz,
+Eval vm_compute in ("<<<M4274>>>" ++ check (runes_of_ascii "packet lengthOf {
+    @leftPad(' ')
+    match len as As {
+        ""1"" : leftPad,
+        255 : Pad,
+        ""1"" : x,
+        4294967296 : u128,
+        // c
+        // packet A { u8 x, }
     },
     @rightPad()
-    zchar[10] charz @calculatedFrom(""" ++ [128512]%N ++ runes_of_ascii """) `// not a comment`,// trailing space 
-}
-// @lengthOf(")).
-Eval vm_compute in ("<<<M1858>>>" ++ check (runes_of_ascii "options {
-    BodyLength = ""{,}""
-    tag = ""// no comment"";
-}
-
-options {
-    charz = '\x00';// a // b
-    repeatCount = 255;
-    _x = """ ++ [128512]%N ++ runes_of_ascii """;
-    Foo = '0'
-    a1 = '0'
-    //x
+    crc `say ""hi""`,
+    @lengthOf(leftPad)
+    @calculatedFrom(""a\\"")
+    repeat char[] _x `100% of %d`,
+    repeatCount asx,
+    repeat u {
+        match falsey as i8i8 {
+            """ ++ [233]%N ++ runes_of_ascii "t" ++ [233]%N ++ runes_of_ascii """ : float,
+            [""\n""] : _x,
+            ""CRC32"" : roots,
+            7 : matchKey,
+            ""packet"" : Foo,
+            ""1"" : int,
+        },
+    },
+    i8 x `
+    `,
+    MetaDataX @lengthOf(f32a),
+    charz {
+        tag @calculatedFrom(""a\\""),
+        MetaDataX @lengthOf(matchKey),
+        int16 msg_type,
+    },
+    @calculatedFrom(""x y"")
+    match x_y_z as Z9_ {
+        1 : lengthOf,
+        255 : u128,
+        ""it's"" : Z9_,
+        // @lengthOf(
+        // 50% %s
+        42 : len,
+    },
     //
+    match calculatedFrom as crc {
+        [
+            0123456789, 255, ""packet"", ""it's"", 0,
+            ""\n"", 1, 0123456789
+        ] : calculatedFrom,
+        65535 : _x,
+        ""CRC32"" : tag,
+        [""`tick`""] : T,
+        [
+            ""it's"", ""it's"", 0123456789, """ ++ [128512]%N ++ runes_of_ascii """, 4294967296,
+            ""`tick`""
+        ] : pack,
+    },
 }
 
-root packet falsey {
-    i64 packetx @lengthOf(Header) `" ++ [28040; 24687; 31867; 22411]%N ++ runes_of_ascii "`,
-    len @lengthOf(roots) `a\`,
-    zchar @lengthOf(MetaDataX) `line1
-        line2`,
-}// packet A { u8 x, }")).
-Eval vm_compute in ("<<<M1819>>>" ++ check (runes_of_ascii "MetaData u8x {
-    packetx len `crlf
-    line`,
-    char[255] calculatedFrom `" ++ [28040; 24687; 31867; 22411]%N ++ runes_of_ascii "`,
-    float64 MetaDataX `say ""hi""`,
-    BodyLength charz `crlf
-    line`,
+packet u8x {
+}
+
+root packet string_ {
+    @tag(3)
+    char[] crc,
+    @rightPad('\x00')
+    @leftPad(' ')
+    //x
+    // packet A { u8 x, }
+    repeat char[42] Foo,
+    @calculatedFrom(""{,}"")
+    string stringy @lengthOf(chars),
+    @tag(1)
+    zchar[007] charz `" ++ [28040; 24687; 31867; 22411]%N ++ runes_of_ascii "`,
+    repeat msg_type {
+        char uint8x `say ""hi""`,
+        char[00] options1 @calculatedFrom(""" ++ [233]%N ++ runes_of_ascii "t" ++ [233]%N ++ runes_of_ascii """) `" ++ [233]%N ++ runes_of_ascii "`,
+        matchKey @calculatedFrom(""1""),
+    },
+    @tag(0123456789)
+    zchar[00] lengthOf,
+    @tag(3)
+    falsey As,
 }
 
 packet lengthOf {
-    //	t
-    @tag(4294967296)
-    uint8x @calculatedFrom(""\n"") `" ++ [28040; 24687; 31867; 22411]%N ++ runes_of_ascii "`,
-    char calculatedFrom @calculatedFrom(""" ++ [28040; 24687]%N ++ runes_of_ascii """) `two words`,
+    chars {
+        Packet `two words`,//
+        char[7] a1 @calculatedFrom(""\" ++ [233]%N ++ runes_of_ascii """) `doc`,
+        charz @calculatedFrom(""" ++ [233]%N ++ runes_of_ascii "t" ++ [233]%N ++ runes_of_ascii """),
+    },
+    @lengthOf(body)
+    match metadata as BodyLength {
+        ""abc"" : chars,
+        255 : o,
+    },
+    leftPad,
+    repeat uint32 Logon,
 }")).
-Eval vm_compute in ("<<<M341>>>" ++ check (runes_of_ascii "options { leftPad
-    = 1
-    ;	leftPad= char[]
-    // c
-    MetaDataX = false// @lengthOf(
-u =
-'\x00'roots =10
-} packet
-A { char[
-    // packet A { u8 x, }
-    10] o ,  match  a1 as T {
-// @lengthOf(
-//	t
-65535 :	Z9_ 0 : _x ,} ,	}
-    packet
-    Foo {repeat i64_ `two words`//
-, }
-")).
-Eval vm_compute in ("<<<M1470>>>" ++ check (runes_of_ascii "
-
-  packet
-
-    Sub {u8
-	a ,  u32
-
-SubSum
-    @calculatedFrom(	""CRC16"" )
-,} root
-	packet
-    Frame { u16
-    MsgType
-
+Eval vm_compute in ("<<<M476>>>" ++ check (runes_of_ascii "root packet Pad
+{@lengthOf(
+    Logon ) zchar[ 3 ]As // a // b
+@calculatedFrom(
+""x y""
+), @leftPad
+( ' ' ) matchKey  `" ++ [28040; 24687; 31867; 22411]%N ++ runes_of_ascii "`,
+@tag(3 )
+    BodyLength { match
+zchar as int{ ""a	b"" : int } // @lengthOf(
+, } // a // b
 ,
-u16 BodyLen @lengthOf(	Body	)
-
-,Sub Body
-	,  string
-note,u32
-    Checksum
-    @calculatedFrom( 
-""CRC16"")
+@tag( 7  ) match x as A
+{ 10 // " ++ [27880; 37322]%N ++ runes_of_ascii "
+:metadata ,
+    }
+, zchar[
+3 ] chars
+    , len body // " ++ [128512]%N ++ runes_of_ascii " emoji
 ,
-u8	tail
+match Z9_	as  chars  { ""a	b""
+: chars , },@lengthOf(
+rootA ) //
+A
+,string tag , u32 a1 `" ++ [28040; 24687; 31867; 22411]%N ++ runes_of_ascii "` , }MetaData string_ { char[]
+_x,
+}
+packet x { @lengthOf( As // 50% %s
+) @lengthOf( //
+asx ) repeat uint32
+int , @leftPad
+    ( ' ' ) repeat  char[
+    3
+    ]o
+`two words` ,	repeat
+a1 {
+repeat f32a { calculatedFrom crc, x
+    Pad , repeat u16
+leftPad// 50% %s
 ,
-
+repeat f32a	calculatedFrom
+, // `tick` ""quote"" 'q'
+},
+i16 repeatCount, asx `a\` ,
+} ,	a1 {
+Z9_ x ,
+charz @lengthOf(
+    As
+) `doc` , Packet
+u , repeat char[007 ]
+    Header ,
 }
-")).
-Eval vm_compute in ("<<<M457>>>" ++ check (runes_of_ascii "options
-{
-matchKey = 42/// triple
-x='0' ;
-// packet A { u8 x, }
-//
-charz
-=
-// packet A { u8 x, }
+,
+calculatedFrom //	t
+lengthOf`" ++ [28040; 24687; 31867; 22411]%N ++ runes_of_ascii "`
+, crc
+    `a\`	,repeat
+    char[] falsey ,@tag( 42
+    ) string matchKey  , zchar  , @tag(0
 // trailing space 
-true  ; } MetaData MetaData BodyLength
-{
-uint8
-pack,zchar[ 1]float ,  float32 x_y_z `` ,u32
-_x,i16 body  , }
-")).
-Eval vm_compute in ("<<<M532>>>" ++ check (runes_of_ascii "options
-{
-matchKey = 42/// triple
-x='0' ;
-// packet A { u8 x, }
-//
-charz
-=
-// packet A { u8 x, }
-// trailing space 
-true  ; } MetaData BodyLength
-{
-uint8
-pack,zchar[ 1]float ,  float32 x_y_z `` ,u32 u32
-_x,i16 body  , }
-")).
-Eval vm_compute in ("<<<M562>>>" ++ check (runes_of_ascii "options
-{
-matchKey = 42/// triple
-x='0' ;
-// packet A { u8 x, }
-//
-charz
-=
-// packet A { u8 x, }
-// trailing space 
-true  ; } MetaData BodyLength
-{
-uint8
-pack,zchar[ 1]float ,  float32 x_y_z `` ,u32
-_x,i16 body  , } }
-")).
-Eval vm_compute in ("<<<M423>>>" ++ check (runes_of_ascii "options
-{
-matchKey = 42/// triple
-x=; '0'
-// packet A { u8 x, }
-//
-charz
-=
-// packet A { u8 x, }
-// trailing space 
-true  ; } MetaData BodyLength
-{
-uint8
-pack,zchar[ 1]float ,  float32 x_y_z `` ,u32
-_x,i16 body  , }
-")).
-Eval vm_compute in ("<<<M411>>>" ++ check (runes_of_ascii "options
-{
-matchKey = 42/// triple
-='0' ;
-// packet A { u8 x, }
-//
-charz
-=
-// packet A { u8 x, }
-// trailing space 
-true  ; } MetaData BodyLength
-{
-uint8
-pack,zchar[ 1]float ,  float32 x_y_z `` ,u32
-_x,i16 body  , }
-")).
-Eval vm_compute in ("<<<M551>>>" ++ check (runes_of_ascii "options
-{
-matchKey = 42/// triple
-x='0' ;
-// packet A { u8 x, }
-//
-charz
-=
-// packet A { u8 x, }
-// trailing space 
-true  ; } MetaData BodyLength
-{
-uint8
-pack,zchar[ 1]float ,  float32 x_y_z `` ,u32
-_x,i16   , }
-")).
-Eval vm_compute in ("<<<M545>>>" ++ check (runes_of_ascii "options
-{
-matchKey = 42/// triple
-x='0' ;
-// packet A { u8 x, }
-//
-charz
-=
-// packet A { u8 x, }
-// trailing space 
-true  ; } MetaData BodyLength
-{
-uint8
-pack,zchar[ 1]float ,  float32 x_y_z `` ,u32
-_x")).
-Eval vm_compute in ("<<<M1400>>>" ++ check (runes_of_ascii "options {
-    FixedStringPadChar = '0';
-}
-packet Q {
-    zchar[4] z,
-    @rightPad('\x00') char[3] n,
-    char[5] d,
-}
-root packet R {
-    Q,
-    zchar[8] top,
-    repeat zchar[2] zs,
-}
-")).
-Eval vm_compute in ("<<<M720>>>" ++ check (runes_of_ascii "// c
-packet i64_ {	char[] calculatedFrom , } packet
-trueish  {@calculatedFrom(
-""a\\"" ) o { i32 falsey@lengthOf( uint8x ),
-} , } // `tick` ""quote"" 'q'
-$options {// c
-Z9_ = ' '//
-}
-")).
-Eval vm_compute in ("<<<M1706>>>" ++ check (runes_of_ascii "
-packet
-    u128
-    { i64
-
-A 
-`{ , }`	, 
-}MetaData	i64_
-
-{ trueish 
-Z9_
+/// triple
+)zchar[ 007] // packet A { u8 x, }
+u128 `two words` ,
+}MetaData f32a {  }
+    packet calculatedFrom { @leftPad (
+'0' ) @rightPad (' ' )metadata
+Foo
     ,
+@tag(1
+    ) int64
+    Pad
+`line1
+line2`  , tag  @lengthOf(
+Header)
+, string	u128 , @calculatedFrom( ""x y"" ) @lengthOf(
+    i64_ ) tag /// triple
+{ o	,Packet@calculatedFrom( ""`tick`""
+)
+    , },// @lengthOf(
+i32
+    leftPad @lengthOf(	u// " ++ [27880; 37322]%N ++ runes_of_ascii "
+), i16 Logon
+,
+@calculatedFrom( ""it's"" ) uint16 BodyLength  @calculatedFrom( // packet A { u8 x, }
+""" ++ [233]%N ++ runes_of_ascii "t" ++ [233]%N ++ runes_of_ascii """
+)
+    // trailing space 
+    , zchar[
+    10  ]x
+    @calculatedFrom( """"
+// " ++ [27880; 37322]%N ++ runes_of_ascii "
+// 50% %s
+) , }
+")).
+Eval vm_compute in ("<<<M561>>>" ++ check (runes_of_ascii "packet uint8x {
+string// packet A { u8 x, }
+rootA
+    @calculatedFrom( // trailing space 
+""\" ++ [233]%N ++ runes_of_ascii """
+    ) ,
+    @rightPad ( ' ' ) repeat matchKey
+//x
+// " ++ [27880; 37322]%N ++ runes_of_ascii "
+,	string string_ @lengthOf( // trailing space 
+A ) `say ""hi""`
+    ,
+    @lengthOf( chars )@tag(
+7 )
+    u8x string_  `line1
+line2`, }packet
+    // " ++ [128512]%N ++ runes_of_ascii " emoji
+    asx { char[
+255 //	t
+]trueish ,@lengthOf( f32a
+)  zchar[ 0 ]
+zchar ,
+// trailing space 
+// @lengthOf(
+match tag // 50% %s
+as u { 0: Packet ""// no comment""
+    :
+//x
+// c
+_x
+,	1
+    // trailing space 
+    :
+// `tick` ""quote"" 'q'
+//	t
+float , """ ++ [128512]%N ++ runes_of_ascii """  : options1 ,},char[	255] metadata// c
+`u8 x,` ,
+    match repeatCount as lengthOf { 0123456789
+: //x
+options1 , 3
+// 50% %s
+// `tick` ""quote"" 'q'
+:
+stringy
+    ,""" ++ [128512]%N ++ runes_of_ascii """ :
+// " ++ [27880; 37322]%N ++ runes_of_ascii "
+// trailing space 
+u, 0123456789 :i8i8 , [ 42 ,
+    """ ++ [128512]%N ++ runes_of_ascii """ ,0123456789  ,
+    // 50% %s
+    4294967296
+,""" ++ [233]%N ++ runes_of_ascii "t" ++ [233]%N ++ runes_of_ascii """]
+:
+// trailing space 
+// trailing space 
+Logon ,3:o ,
+    } ,@lengthOf( asx ) repeat i16 T,
+@calculatedFrom( ""x y""
+)
+@calculatedFrom(""x y""
+) @tag(
+    4294967296	) zchar[0  ] lengthOf , repeat
+zchar[ 00
+]
+    T
+    ,
+    // 50% %s
+    } packet asx // " ++ [27880; 37322]%N ++ runes_of_ascii "
+{ repeat
+i8i8
+// " ++ [128512]%N ++ runes_of_ascii " emoji
+// a // b
+{
+    repeat u16
+tag	`crlf
+line`
+    , trueish @lengthOf(
+    x // " ++ [128512]%N ++ runes_of_ascii " emoji
+) ,
+    repeat len {
+roots @lengthOf( Packet )
+``
+    , Packet
+@lengthOf(/// triple
+string_ )`100% of %d` ,
+Foo options1, } ,
+o `" ++ [28040; 24687; 31867; 22411]%N ++ runes_of_ascii "`
+,}	,  }	packet Z9_ {
+}
+root packet // @lengthOf(
+stringy
+{ stringy, }
+")).
+Eval vm_compute in ("<<<M3601>>>" ++ check (runes_of_ascii "packet 
+MetaDataX	{@tag( 3 	 // " ++ [128512]%N ++ runes_of_ascii " emoji
+    )	match
+asx
+
+as
+
+    u8x  {
+
+[
+
+    ""CRC32""
+]	:
+chars 0123456789
+
+    : rootA
+,//x
+    65535	:
+len	, """ ++ [128512]%N ++ runes_of_ascii """:
+charz/// triple
+
+  }  ,
+lengthOf
+
+Z9_
+`
+`, char[]
+A
+@calculatedFrom(""" ++ [233]%N ++ runes_of_ascii "t" ++ [233]%N ++ runes_of_ascii """  ) 
+,	char[] T 
+,
+i32
+repeatCount	,
+
+@calculatedFrom( """ ++ [128512]%N ++ runes_of_ascii """)
+pack
+	@lengthOf(
+
+chars)`line1
+line2`
+
+// 50% %s
+	,
+@tag( 0123456789 ) 
+f32a
+    {
+
+    match
+
+    MetaDataX as  f32a 
+{  7 // " ++ [27880; 37322]%N ++ runes_of_ascii "
+	  :
+options1 
+"""" : // " ++ [27880; 37322]%N ++ runes_of_ascii "
+  chars  255:  
+      // `tick` ""quote"" 'q'
+    /// triple
+  uint8x
+00:
+body	// " ++ [128512]%N ++ runes_of_ascii " emoji
+  , [
+
+    10	/// triple
+	,
+	42] :
+packetx
+    ,
+    },
+},
+
+@tag(
+0123456789
+)repeat 
+options1
+options1 , u32  MetaDataX 
+@lengthOf(
+	// packet A { u8 x, }
+  o )
+, }
+root	packet
+    Pad  // trailing space 
+	{
+
+    msg_type ,
+    }	packet
+    i64_
+    {
+	float 
+@lengthOf(f32a ) 
+,
+u64  int
+
+@calculatedFrom( ""packet""  )
+
+`" ++ [28040; 24687; 31867; 22411]%N ++ runes_of_ascii "`  , 
+@leftPad  // a // b
+		(
+
+    ' ')
+
+    @calculatedFrom( ""\" ++ [233]%N ++ runes_of_ascii """)uint64 BodyLength  , zchar[ 65535	] crc,
+match	tag as
+
+    charz
+
+{ [	""" ++ [128512]%N ++ runes_of_ascii """] 	 //x
+	: 
+zchar
+,	}	// 50% %s
+  ,	// " ++ [128512]%N ++ runes_of_ascii " emoji
+x  @lengthOf(x	// c
+
+)
+    `100% of %d`
+	,
+
+@tag( 7 ) float32	i64_
+	@calculatedFrom(
+	""packet""
+	)`line1
+line2`,
+    repeat  tag 
+Logon 
+
+    // a // b
+  , }	packet leftPad
+
+    { }
+")).
+Eval vm_compute in ("<<<M682>>>" ++ check (runes_of_ascii "
+packet
+    Pad { repeat Pad  u8x ,@calculatedFrom( ""a\\"" )
+zchar[ // a // b
+007 ] asx
+@calculatedFrom( ""abc"" ) ,	match zchar
+    as
+    x_y_z{ ""1""
+    :  tag	,
+""1""// `tick` ""quote"" 'q'
+: asx } , repeat string f32a `say ""hi""` ,
+    repeat
+    char[] string_ ,float32
+    leftPad
+    @lengthOf(  u128 /// triple
+) // " ++ [128512]%N ++ runes_of_ascii " emoji
+,
+    match tag
+as f32a
+{ ""\n"" :metadata , 255 : int
+    // " ++ [27880; 37322]%N ++ runes_of_ascii "
+    ,
+    ""1"" // c
+: body
+    , 0 :
+lengthOf[""1"" ] :
+    // `tick` ""quote"" 'q'
+    leftPad , ""abc""
+: uint8x
+//x
+// c
+} // packet A { u8 x, }
+, //
+@leftPad (' '  ) zchar[10 ]
+trueish@calculatedFrom(""packet"" )// " ++ [128512]%N ++ runes_of_ascii " emoji
+`crlf
+line`	, match string_ as
+    pack
+{
+    7: body [
+    // trailing space 
+    """ ++ [28040; 24687]%N ++ runes_of_ascii """	,
+//	t
+//
+""" ++ [233]%N ++ runes_of_ascii "t" ++ [233]%N ++ runes_of_ascii """
+]:u8x
+, 3:
+_x , [ 42
+, ""CRC32""
+    ]
+    : roots ,
+[ 00 ,
+    ""a\""b"",
+10 ,
+/// triple
+// @lengthOf(
+""a\""b"" , ""a	b"" , 0123456789 , 1 ,"""" ] :  f32a  ,
+""abc"" :i64_ }
+    ,
+// trailing space 
+// trailing space 
+@tag( 255 )
+    Logon
+Foo, } root packet string_{//
+u8x@calculatedFrom(
+    ""CRC32"")	, // `tick` ""quote"" 'q'
+} packet x_y_z{
+@rightPad ( ' '
+) repeat crc asx , }options { body
+    = u32 ;
+} MetaData stringy{
+    u64 float`// not a comment`, }
+")).
+Eval vm_compute in ("<<<M471>>>" ++ check (runes_of_ascii "root packet
+    // " ++ [27880; 37322]%N ++ runes_of_ascii "
+    MetaDataX {  @tag(1
+    )	@leftPad
+( '0'
+) char i8i8 @calculatedFrom( ""\n"" )
+// 50% %s
+// trailing space 
+, }root packet T {	repeat
+o{	match f32a
+    //x
+    as
+    a1 {
+    [ ""x y"" ,
+00
+    ,
+    65535
+    , ""\n"" ] : packetx  , ""`tick`"": float	, 65535
+:
+Packet ""{,}"" : repeatCount ,
+}  , repeat u128,}, @tag(	0
+)//	t
+char[ 7] BodyLength
+    , f32a `doc` ,
+char[]
+    roots// a // b
+, repeat msg_type ,
+    @rightPad( )	char[] x// " ++ [27880; 37322]%N ++ runes_of_ascii "
+,  body
+@lengthOf( zchar// 50% %s
+),matchKey { char[ 7 ] falsey , }
+, }
+packet i8i8 {
+@tag(  007 )
+repeat char[]
+Packet , // a // b
+@lengthOf(
+MetaDataX)
+    @calculatedFrom( """" ) @tag( 0123456789 ) f32 As ,
+    string_ crc , int16 stringy, @lengthOf( Packet ) roots @lengthOf(falsey // packet A { u8 x, }
+),
+    string rootA ,// packet A { u8 x, }
+char[]string_
+// c
+// packet A { u8 x, }
+`// not a comment` , trueish { uint64 zchar
+@calculatedFrom(
+    // trailing space 
+    ""abc"" )`// not a comment` , }, // c
+@lengthOf(  Pad
+) zchar[// trailing space 
+1	]_x	`
+`,
+// packet A { u8 x, }
+/// triple
+string
+    //x
+    o `two words` , }
+")).
+Eval vm_compute in ("<<<M4130>>>" ++ check (runes_of_ascii "options {
+    /// triple
+    repeatCount = '\x00'
+    u128 = ' ';
+    A = 00
+    int = '0'
+    stringy = 3;
+}
+
+options {
+    float = false;
+    options1 = ""`tick`"";
+    rootA = ' ';
+    T = '0';
+}
+
+packet charz {
+    @lengthOf(int)
+    repeat i16 uint8x `say ""hi""`,
+    repeat zchar[255] Z9_,
+    metadata,
+    @tag(007)
+    // c
+    Packet {
+        char[1] x,// " ++ [27880; 37322]%N ++ runes_of_ascii "
+        match asx as x {
+            00 : len,
+            ["""", ""a\\""] : crc,
+            10 : matchKey,
+            10 : leftPad,
+        },
+        match stringy as A {
+            ""1"" : i64_,
+            7 : As,
+            ""{,}"" : i8i8,
+        },
+        zchar[007] matchKey,
+    },
+    repeat zchar[7] trueish,
+    @tag(42)
+    u8 metadata @lengthOf(Packet),
+    @calculatedFrom(""a	b"")
+    i8 i64_ `line1
+        line2`,
+    repeat A {
+        chars {
+            char[1] stringy @calculatedFrom(""1""),
+        },
+        repeat char[] Z9_,
+        repeat u128 `" ++ [28040; 24687; 31867; 22411]%N ++ runes_of_ascii "`,
+        chars @lengthOf(asx),
+    },
+}
+
+packet Foo {
+}
+
+MetaData asx {
+    char[] Header `doc`,
+}")).
+Eval vm_compute in ("<<<M3568>>>" ++ check (runes_of_ascii "  options
+	{	LittleEndian
+=
+
+false 
+;	StringPrefixLenType 
+=	u16
+
+    ;
+
+    ArrayPrefixLenType  =
+u16
+; FixedStringPadFromLeft  = 
+false	; FixedStringPadChar=' '
+	;
+
+}
+	packet	Heartbeat
+	{
+	i32
+f1	, } packet
+Cancel{char[]Note,  }	packet  Fill { u32 price, float64  Ref
+,
+zchar[
+
+    8
+	]	tag7 ,	repeat  Cancel
+
+,
+
+int64
+
+    Acct , }
+packet
+    Quote{	@rightPad
+    (
+	'0')	char[  12] 
+count 
+,	char[]seqNo , }  root
+
+packet
+
+    Party
+{Fill ,
+
+InMsgkind30 {	repeat
+
+    u16
+Ref
+,	repeat
+
+    InCount61 {repeat
+    i8
+
+    sym
+	, char[]
+	Ref	, 
+repeat
+
+char[
+4
+	]	Qty,
+
+repeat
+    Heartbeat
+    ,  },u32
+venue, uint16
+
+    Flags 
+,
+} ,u8
+
+    Px
+
+,  repeat
+    u16
+Side2
+    ,@rightPad (
+'0'
+)char[10 ]  Qty,
+
+    @rightPad (
+
+    '\x00'  ) char[ 
+1]clOrdID	, u8  Tail  ,
+
+    match Tail 
+as Body
+    {
+
+[
+159	, 182
+] 
+:Quote
+
+, 
+155
+: Heartbeat,
+
+178 :
+Fill
+	, 49 : Cancel,
+}
+,	u16
+
+    Ref@calculatedFrom(""CRC32"" ) ,  }
+")).
+Eval vm_compute in ("<<<M3252>>>" ++ check (runes_of_ascii "// top
+root
+    // c0
+packet
+    // c1
+msg_type
+    // c2
+{
+    // c3
+i64
+    // c4
+options1
+    // c5
+,
+    // c6
+@lengthOf(
+    // c7
+f32a
+    // c8
+)
+    // c9
+repeat
+    // c10
+uint16
+    // c11
+Foo
+    // c12
+,
+    // c13
+@calculatedFrom(
+    // c14
+""x y""
+    // c15
+)
+    // c16
+repeat
+    // c17
+int64
+    // c18
+pack
+    // c19
+,
+    // c20
+@leftPad
+    // c21
+(
+    // c22
+' '
+    // c23
+)
+    // c24
+uint8
+    // c25
+Foo
+    // c26
+,
+    // c27
+}
+    // c28
+packet
+    // c29
+rootA
+    // c30
+{
+    // c31
+f32a
+    // c32
+x
+    // c33
+`" ++ [28040; 24687; 31867; 22411]%N ++ runes_of_ascii "`
+    // c34
+,
+    // c35
+char
+    // c36
+asx
+    // c37
+@lengthOf(
+    // c38
+falsey
+    // c39
+)
+    // c40
+``
+    // c41
+,
+    // c42
+uint16
+    // c43
+chars
+    // c44
+,
+    // c45
+@tag(
+    // c46
+0
+    // c47
+)
+    // c48
+string
+    // c49
+_x
+    // c50
+@calculatedFrom(
+    // c51
+""abc""
+    // c52
+)
+    // c53
+`100% of %d`
+    // c54
+,
+    // c55
+}
+    // c56
+")).
+Eval vm_compute in ("<<<M3534>>>" ++ check (runes_of_ascii "options { 
+LittleEndian
+
+=
+    false  ;
+StringPrefixLenType 
+= u16 ;	ArrayPrefixLenType = u8  ;
+    FixedStringPadFromLeft  =
+	true	; 
+FixedStringPadChar=
+	' '
+;}
+packet Logon
+
+    {} 
+packet
+
+    Reject
+{ InPx48	{	repeat
+	string
+
+    price
+    ,
+    u32 msgKind
+
+    ,repeat
+InSide223
+{ Logon
+,
+	repeat
+f64
+
+Ref
+    ,
+    string
+
+    tag7 ,
+
+}  ,
+InClordid8{
+    zchar[	5
+    ]  Qty
+,
+u64	x
+
+,
+repeat string	lastPx
+	, }	, 
+} 
+,	Logon
+,	i16 lastPx , repeat
+char[ 5
+
+    ]
+clOrdID, zchar[
+	2
+    ]
+Flags ,
+    repeat string
+Side2
+    , } root 
+packet
+
+    Order  {uint16 sym ,zchar[8	]	Side2
+
+,repeat string
+    clOrdID ,
+string  tag7 ,
+    zchar[  3
+
+    ]
+    OrderId  ,zchar[  4	] seqNo , u32 f1, u32 Acct@lengthOf(Body ) ,  match 
+f1
+
+as
+    Body { 58
+:Reject	,
+
+    180	:Logon
+    ,}
+	, u32
+    Px
+
+    @calculatedFrom( ""CRC32""
+    ) , }")).
+Eval vm_compute in ("<<<M4107>>>" ++ check (runes_of_ascii "packet
+	f32a 
+{
+@lengthOf( 
+  //x
+	  i8i8)	matchKey	@lengthOf(Pad
+    )
+`100% of %d`
+,
+
+@tag( 
+    //
+
+// " ++ [27880; 37322]%N ++ runes_of_ascii "
+	0123456789
+
+    )
+    // 50% %s
+
+@calculatedFrom( 
+    // @lengthOf(
+
+  //	t
+
+	""abc"")
+	repeat
+    char[0 ] 
+	//	t
+    f32a/// triple
+
+,
+    @tag( 3
+
+)
+@calculatedFrom(
+
+    ""1"" 
+	    // " ++ [128512]%N ++ runes_of_ascii " emoji
+
+//	t
+  ) @lengthOf(
+lengthOf	) zchar[
+	1
+    ] 
+zchar , //x
+  @calculatedFrom(
+""a	b"") @tag(
+65535 
+)
+char[
+	65535 
+] matchKey
+	,
+    //x
+//	t
+	int  //x
+zchar
+
+    `{ , }`,
+	repeat metadata  As
+	,
+
+@calculatedFrom(""CRC32""  ) _x
+
+,repeat
+    Pad
+
+{  uint8
+
+    Header 
+`{ , }`  ,
+} ,
+	@lengthOf(
+
+u128// packet A { u8 x, }
+  )
+i32 trueish @lengthOf( 
+      // c
+		// `tick` ""quote"" 'q'
+  chars
+
+    ) `// not a comment`,@tag(
+	65535  )  repeat u8x
+
+    tag `a\`
+
+, 
 
     // " ++ [128512]%N ++ runes_of_ascii " emoji
-    // `tick` ""quote"" 'q'
-      } options { 
-metadata = i16
-
-; charz = false
-
+  	// @lengthOf(
+  }")).
+Eval vm_compute in ("<<<M3981>>>" ++ check (runes_of_ascii "root packet tag {
+    repeat string charz `crlf
+        line`,
 }
-")).
-Eval vm_compute in ("<<<M1828>>>" ++ check (runes_of_ascii "packet lengthOf {
-    @leftPad()
-    // a // b
-    @tag(7)
-    u8 BodyLength,
-    char[1] chars `
-        `,
-    @tag(00)
-    char[0] Z9_ @lengthOf(float) `u8 x,`,
+
+MetaData roots {
+    // packet A { u8 x, }
+    char[4294967296] x_y_z `100% of %d`,
+}
+
+MetaData crc {
+    // " ++ [27880; 37322]%N ++ runes_of_ascii "
+    o A,
+    leftPad u,
+    Header Z9_,
+    string calculatedFrom,
+    char[] int,// " ++ [27880; 37322]%N ++ runes_of_ascii "
+}// a // b
+
+MetaData uint8x {
+    body Packet,
+    i32 i8i8,
+    uint8 Z9_,
+    string chars,
+    zchar[00] roots `u8 x,`,
+    int32 Foo,
+}
+
+root packet zchar {
+    //	t
+    @calculatedFrom(""packet"")
+    match a1 as T {
+        ""`tick`"" : repeatCount,
+        [
+            ""packet"", 4294967296, ""\n"", 3, ""\n"",
+            ""CRC32"", ""CRC32"", """ ++ [28040; 24687]%N ++ runes_of_ascii """
+        ] : BodyLength,
+        [""" ++ [128512]%N ++ runes_of_ascii """] : x_y_z,
+        [""" ++ [233]%N ++ runes_of_ascii "t" ++ [233]%N ++ runes_of_ascii """, ""a	b""] : uint8x,
+    },
+    int16 falsey @calculatedFrom(""x y""),
+    match lengthOf as Z9_ {
+        00 : Header,
+    },
 }")).
-Eval vm_compute in ("<<<M1380>>>" ++ check (runes_of_ascii "root packet
-    // c1
-P // c2
-{ u8 // c4
-s_u8 // c5
-, // c6
-repeat // c7
-u8 // c8
-r_u8 , u16 // c11
-b_len
-    // c12
-, // c13a
-  // c13b
-}
-    // c14
+Eval vm_compute in ("<<<M473>>>" ++ check (runes_of_ascii "packet a1{@lengthOf( uint8x) repeat
+zchar[ 1  ] x_y_z , @lengthOf(
+x_y_z )@lengthOf(
+    // `tick` ""quote"" 'q'
+    Packet
+    // a // b
+    ) i8 stringy ,  a1
+    { match
+//	t
+// `tick` ""quote"" 'q'
+Foo as
+falsey{ 4294967296// packet A { u8 x, }
+: //
+repeatCount ,
+[
+    ""\" ++ [233]%N ++ runes_of_ascii """ , """ ++ [128512]%N ++ runes_of_ascii """ /// triple
+] :
+asx , 255 :len , [""1"" , 7 ,// trailing space 
+7
+    ,3 ,
+42 ] :msg_type  [1 //	t
+,007 ,	""" ++ [128512]%N ++ runes_of_ascii """, ""// no comment"" , ""a\""b""  ] : f32a , """" : float }
+, } ,@lengthOf( x ) @calculatedFrom( """ ++ [128512]%N ++ runes_of_ascii """  )Logon
+,
+@lengthOf(len //x
+) match BodyLength
+    as
+    metadata {00
+: u8x 00 : msg_type }
+, int
+{
+uint8 lengthOf ,
+uint32
+    lengthOf
+    // a // b
+    @calculatedFrom(
+    ""\" ++ [233]%N ++ runes_of_ascii """ ), } , _x`u8 x,`, @calculatedFrom(	""abc"")
+    // c
+    repeat
+    A body ,
+uint16
+charz , }
 ")).
-Eval vm_compute in ("<<<M1560>>>" ++ check (runes_of_ascii "packet
-B{ 
-u8 
-a
-,}	root packet  P
-{u8
-
-K	,match	K
-as Body
-
-    {
-    1
-	:B  ,
-	}  ,
-
-u16 L
-	@lengthOf(
-Body
+Eval vm_compute in ("<<<M314>>>" ++ check (runes_of_ascii "packet MetaDataX {
+@lengthOf(
+    pack )crc tag `it's` , // trailing space 
+match A as
+calculatedFrom // `tick` ""quote"" 'q'
+{ ""a\\"" :  o ,[ ""packet""  ,""a\\"", """ ++ [128512]%N ++ runes_of_ascii """  , ""\n""
+    ]
+:
+    string_ }
+    , i32 MetaDataX @calculatedFrom(  ""a	b"")
+    , @calculatedFrom( ""a	b"")@calculatedFrom(
+""" ++ [233]%N ++ runes_of_ascii "t" ++ [233]%N ++ runes_of_ascii """)
+    zchar[ 65535 ]
+x_y_z , u8 zchar	@lengthOf( crc ) , repeatCount
+// a // b
+//
+@calculatedFrom( ""it's"" )
+    , zchar[7
+] Z9_ @lengthOf( stringy
+    ) // packet A { u8 x, }
+`// not a comment` ,pack
+    { asx
+i8i8 ,/// triple
+repeat x{ repeat MetaDataX
+Logon
+, zchar[ 10 ]
+    Z9_ @calculatedFrom(
+""\n"") `say ""hi""` ,}  , },roots @lengthOf(
+u	) // packet A { u8 x, }
+`say ""hi""` , @rightPad ( ' ')i8i8 @lengthOf(	Logon
+)
+, }
+")).
+Eval vm_compute in ("<<<M586>>>" ++ check (runes_of_ascii "packet body { }packet  falsey { float64 trueish, } options {
+calculatedFrom	= ""it's"" asx /// triple
+= 3;crc
+    // @lengthOf(
+    = // @lengthOf(
+""x y"" ;}
+    root packet len
+    { f64 Foo
+    ,@tag( 10
+    )	repeat
+/// triple
+// packet A { u8 x, }
+Pad // a // b
+{ float @calculatedFrom( ""1""
+    ) , f32 Z9_@lengthOf(
+    //	t
+    crc
+    )  ,
+} , repeat
+leftPad`{ , }` , repeat uint8x	, x_y_z `doc`	,
+@lengthOf( zchar
     )
+// packet A { u8 x, }
+// a // b
+match
+Logon as string_ {
+10 : body ,
+    }  ,
+    // 50% %s
+    repeat
+    // " ++ [27880; 37322]%N ++ runes_of_ascii "
+    int16//x
+options1`
+` , }root packet
+options1
+// a // b
+//x
+{
+zchar[42 ]
+// `tick` ""quote"" 'q'
+// trailing space 
+u8x //	t
+,
+    } // 50% %s")).
+Eval vm_compute in ("<<<M3904>>>" ++ check (runes_of_ascii "options {
+    u8x = '0';
+    stringy = ""x y""
+    lengthOf = true;//x
+    _x = 007
+    // trailing space 
+    //
+    A = '0';
+}
 
+root packet stringy {
+    repeat uint16 len `tab	here`,
+    @tag(7)
+    @calculatedFrom(""" ++ [28040; 24687]%N ++ runes_of_ascii """)
+    i16 msg_type `
+    `,// a // b
+    repeat repeatCount {
+        repeat pack msg_type `tab	here`,
+        match repeatCount as _x {
+            ""`tick`"" : trueish,
+            [""\n"", 65535, 255, ""abc"", 0123456789] : options1,
+        },
+    },
+    @rightPad(' ')
+    f64 Z9_,
+    int32 BodyLength `two words`,
+    @calculatedFrom(""a\\"")
+    char[255] lengthOf,
+    f64 Foo,
+    char[1] Z9_,
+    repeat roots uint8x,
+}
+
+packet Header {
+}")).
+Eval vm_compute in ("<<<M213>>>" ++ check (runes_of_ascii "  MetaData
+    trueish {
+matchKey
+// @lengthOf(
+// @lengthOf(
+leftPad
+, f64 stringy  , msg_type
+packetx , matchKey stringy
+`// not a comment` ,i16 x_y_z
+`crlf
+line`
+,
+roots
+i64_ ,
+} MetaData
+body
+    { int metadata ,Pad charz , } root packet BodyLength
+{
+repeat	zchar[	3 ] lengthOf	`100% of %d`
     ,
+    @leftPad (
+    '0' )	@rightPad ( ) @tag( 1 ) As pack	,lengthOf  , @calculatedFrom(
+""{,}"" ) @calculatedFrom(
+""a	b"" ) @lengthOf( asx)
+    //	t
+    repeat
+    string_ { f32 BodyLength, }, char[
+65535 ]Pad
+,@lengthOf( A ) int8 i64_ , @tag( 007 ) // trailing space 
+repeatCount
+    ,
+@tag(
+7
+)
+repeat
+uint32 int
+`" ++ [233]%N ++ runes_of_ascii "`	, }
+")).
+Eval vm_compute in ("<<<M4040>>>" ++ check (runes_of_ascii "packet u {
+    // @lengthOf(
+    match Foo as a1 {
+        [65535] : chars,
+    },
+    body @calculatedFrom(""CRC32""),
+    // trailing space 
+    // `tick` ""quote"" 'q'
+    char[0] matchKey @calculatedFrom(""\" ++ [233]%N ++ runes_of_ascii """),
+}
+
+// trailing space 
+// " ++ [27880; 37322]%N ++ runes_of_ascii "
+packet crc {
+}
+
+packet Foo {
+    @calculatedFrom(""" ++ [28040; 24687]%N ++ runes_of_ascii """)
+    @tag(7)
+    @calculatedFrom(""\" ++ [233]%N ++ runes_of_ascii """)
+    match stringy as pack {
+        // `tick` ""quote"" 'q'
+        7 : string_,
+        3 : calculatedFrom,
+        ""`tick`"" : i64_,
+        [""" ++ [128512]%N ++ runes_of_ascii """] : tag,
+        [""CRC32""] : rootA,
+    },
+    packetx @lengthOf(calculatedFrom) `a\`,
+    i32 Foo,
+    i16 calculatedFrom,
+}")).
+Eval vm_compute in ("<<<M3518>>>" ++ check (runes_of_ascii "// top
+root
+    // c0
+packet // c1a
+  // c1b
+Frame // c2a
+  // c2b
+{ // c3a
+  // c3b
+u8 // c4a
+  // c4b
+K , // c6
+Logon // c7
+first
+    // c8
+, // c9a
+  // c9b
+match // c10a
+  // c10b
+K as // c12a
+  // c12b
+Body // c13
+{ // c14a
+  // c14b
+1 // c15
+: // c16
+Logon
+    // c17
+,
+    // c18
+2
+    // c19
+:
+    // c20
+Logout // c21a
+  // c21b
+, // c22a
+  // c22b
+} ,
+    // c24
+} // c25a
+  // c25b
+packet // c26a
+  // c26b
+Logon { string user // c30a
+  // c30b
+, // c31a
+  // c31b
+} // c32
+packet
+    // c33
+Logout // c34
+{ // c35
+u16
+    // c36
+reason ,
+    // c38
+} // c39
+")).
+Eval vm_compute in ("<<<M78>>>" ++ check (runes_of_ascii "root packet
+u	{repeat float, } MetaData
+    rootA { u32
+//
+//
+stringy , int64 matchKey `tab	here`
+,matchKey o , char[ 0123456789 ]a1// 50% %s
+`tab	here` ,
+matchKey leftPad , }	packet
+    int
+    { @rightPad( ' ' ) zchar[1]Z9_ , // `tick` ""quote"" 'q'
+@leftPad  ('0') body packetx ,	@calculatedFrom(
+""x y"" )zchar[ 1 ]	A
+,
+    @rightPad ( '0')
+    // " ++ [128512]%N ++ runes_of_ascii " emoji
+    repeat leftPad
+charz	`" ++ [28040; 24687; 31867; 22411]%N ++ runes_of_ascii "`
+, @lengthOf(BodyLength ) @tag(0)@calculatedFrom( ""it's"" ) string	f32a
+@lengthOf(
+int ) ,u8x , Foo @calculatedFrom( ""x y""
+), }  packet asx {	}
+packet
+    u
+{ }")).
+Eval vm_compute in ("<<<M3488>>>" ++ check (runes_of_ascii "// top
+packet // c0
+A
+    // c1
+{ u8 // c3a
+  // c3b
+a , // c5
+}
+    // c6
+packet B // c8a
+  // c8b
+{ // c9a
+  // c9b
+u16 // c10a
+  // c10b
+b ,
+    // c12
+} // c13
+root // c14a
+  // c14b
+packet
+    // c15
+P
+    // c16
+{ // c17
+u8 // c18a
+  // c18b
+K1
+    // c19
+, // c20
+u8
+    // c21
+K2
+    // c22
+, match // c24a
+  // c24b
+K1 as // c26a
+  // c26b
+M1 // c27a
+  // c27b
+{
+    // c28
+1 // c29
+: A // c31
+, } , match
+    // c35
+K2 as // c37
+M2 // c38
+{ // c39
+1
+    // c40
+:
+    // c41
+B ,
+    // c43
+} // c44a
+  // c44b
+, }
+    // c46
+")).
+Eval vm_compute in ("<<<M876>>>" ++ check (runes_of_ascii "packet
+rootA {
+zchar[0
+]
+    // " ++ [27880; 37322]%N ++ runes_of_ascii "
+    chars @lengthOf(
+    options1)
+`crlf
+line`
+, repeat  chars{
+    repeat zchar[
+// a // b
+// 50% %s
+10] MetaDataX `doc` ,} , @calculatedFrom( ""`tick`"" ) zchar[ 255 ]x_y_z ,  u , @calculatedFrom(
+""\n"" ) @lengthOf( chars)
+    @calculatedFrom(
+""\n""
+) zchar[ // c
+1]o
+    // `tick` ""quote"" 'q'
+    `it's` , } options
+{
+    As
+/// triple
+/// triple
+=
+""{,}"";BodyLength =  false ; roots = ""packet"" trueish = ""`tick`"" ; Z9_
+// " ++ [128512]%N ++ runes_of_ascii " emoji
+// packet A { u8 x, }
+=false
+    //
+    ; }")).
+Eval vm_compute in ("<<<M831>>>" ++ check (runes_of_ascii "root
+// @lengthOf(
+// " ++ [128512]%N ++ runes_of_ascii " emoji
+packet float
+    {@tag(
+    65535 ) //	t
+a1 {repeat Logon	i64_
+, u8x
+    //x
+    { // 50% %s
+x @lengthOf( Z9_ ) ,},
+}
+    , msg_type	,
+repeat char[]
+// c
+//
+a1
+    `a\` , // a // b
+match calculatedFrom	as
+    MetaDataX
+    { [""\" ++ [233]%N ++ runes_of_ascii """ // " ++ [128512]%N ++ runes_of_ascii " emoji
+,
+""\n"" , ""\" ++ [233]%N ++ runes_of_ascii """,
+    10 ,
+    // `tick` ""quote"" 'q'
+    42 ,
+""it's"" ,""a	b"" , 255 // trailing space 
+]
+:
+MetaDataX
+, [ 0 ]
+    // trailing space 
+    : lengthOf ,}, } packet charz	{ @tag(
+7 )float64 rootA
+, }
+")).
+Eval vm_compute in ("<<<M364>>>" ++ check (runes_of_ascii "MetaData string_
+    {msg_type len ,
+u
+f32a ,
+roots	pack
+,
+tag trueish `say ""hi""` , }
+packet
+trueish
+{ }	root
+packet _x{ char[ 007 ]Pad
+, @rightPad ( '0' ) u//
+repeatCount ,
+@rightPad( '0'
+/// triple
+// 50% %s
+)
+u16 metadata `100% of %d` ,
+@lengthOf(
+    packetx
+) @rightPad
+    (
+' ' ) @lengthOf( int  ) string // " ++ [27880; 37322]%N ++ runes_of_ascii "
+repeatCount	`
+` ,
+    string chars , float32 packetx ,	repeat u8
+msg_type
+,
+    repeat
+    tag //	t
+Logon `say ""hi""` , } packet x {}
+")).
+Eval vm_compute in ("<<<M210>>>" ++ check (runes_of_ascii "packet options1 {i64 roots ,	repeat string
+As , repeat
+    int64 charz ,
+    @tag( 255
+    // packet A { u8 x, }
+    ) int32 calculatedFrom
+// `tick` ""quote"" 'q'
+//	t
+@calculatedFrom( ""// no comment"") ,match i8i8 as
+float
+    // " ++ [128512]%N ++ runes_of_ascii " emoji
+    {	1
+    : packetx
+,} , } packet charz { @lengthOf(
+metadata ) repeat u128  ,T	o
+    ,
+@rightPad(' ')repeat o
+`tab	here`
+    ,
+i16 As
+//	t
+/// triple
+`two words` , }
+    packet x /// triple
+{
+    }
+")).
+Eval vm_compute in ("<<<M155>>>" ++ check (runes_of_ascii "
+packet falsey  {
+int8 // a // b
+T ``  ,
+matchKey @calculatedFrom(""a\""b"" ) `" ++ [233]%N ++ runes_of_ascii "`	, @tag(
+    // c
+    1 )
+match
+lengthOf // 50% %s
+as leftPad {[
+    """ ++ [28040; 24687]%N ++ runes_of_ascii """ ,
+4294967296
+    // trailing space 
+    ] :x , [ ""\n""
+, 007
+]	:x ,} , match crc as i64_ { ""1""  : _x ,} , }  packet As
+{
+match
+lengthOf as Z9_ { //
+[
+""\" ++ [233]%N ++ runes_of_ascii """, ""a	b""
+//	t
+//x
+,007
+, 0123456789
+    // `tick` ""quote"" 'q'
+    ,255, ""{,}""] :
+x_y_z  ""`tick`""
+    : pack
+, }, }")).
+Eval vm_compute in ("<<<M4021>>>" ++ check (runes_of_ascii "MetaData o {
+    u128 Z9_,
+    i8 metadata,
+    char len `u8 x,`,
+    o f32a,
+    float float,
+    calculatedFrom i64_,
+}
+
+packet packetx {
+    //	t
+    @calculatedFrom(""a\\"")
+    // 50% %s
+    match u128 as x {
+        [10, ""a\""b""] : tag,
+        [255] : packetx,
+        // " ++ [128512]%N ++ runes_of_ascii " emoji
+        // a // b
+        [0123456789] : metadata,
+        ""CRC32"" : roots,
+        """ ++ [28040; 24687]%N ++ runes_of_ascii """ : o,
+        [255] : Packet,
+    },
+}//x")).
+Eval vm_compute in ("<<<M3850>>>" ++ check (runes_of_ascii "MetaData repeatCount {
+    string lengthOf,
+    leftPad falsey,
+    string u,
+    // " ++ [128512]%N ++ runes_of_ascii " emoji
+    //	t
+    zchar[42] msg_type,
+    uint8 pack `
+    `,
+}
+
+packet x {
+    repeat char[255] Foo,
+}
+
+packet Header {
+}// `tick` ""quote"" 'q'
+
+options {
+    // packet A { u8 x, }
+    options1 = false
+    len = zchar[4294967296]
+    i8i8 = float32;
+}
+
+// @lengthOf(
+// `tick` ""quote"" 'q'
+MetaData BodyLength {
+}")).
+Eval vm_compute in ("<<<M3688>>>" ++ check (runes_of_ascii "MetaData len {
+    char[42] T `
+        `,
+    char[4294967296] asx `" ++ [233]%N ++ runes_of_ascii "`,
+    float64 Z9_,
+    msg_type falsey `line1
+        line2`,
+    char charz,// a // b
+}
+
+MetaData calculatedFrom {
+    char[7] a1,
+    // trailing space 
+    // " ++ [27880; 37322]%N ++ runes_of_ascii "
+    float msg_type,
+    char[007] u `crlf
+        line`,
+    string stringy `" ++ [28040; 24687; 31867; 22411]%N ++ runes_of_ascii "`,// @lengthOf(
+    zchar[00] chars,
+    char[00] string_,
+}")).
+Eval vm_compute in ("<<<M712>>>" ++ check (runes_of_ascii "packet packetx { char[]  trueish@lengthOf( i8i8 )
+, @tag( 1
+// c
+//
+)
+    @calculatedFrom(""it's"" )falsey charz `tab	here` ,@tag(
+0 )
+/// triple
+// c
+match a1 as leftPad
+{[	""a	b"",	""{,}"",
+""packet""
+    // `tick` ""quote"" 'q'
+    ,1, 10 // `tick` ""quote"" 'q'
+, 007, 10 , """ ++ [28040; 24687]%N ++ runes_of_ascii """]	:
+crc
+, [ ""packet"" ,	42 ]
+    : i64_ , } ,options1 @calculatedFrom(
+""it's"" ) // a // b
+,}
+")).
+Eval vm_compute in ("<<<M4110>>>" ++ check (runes_of_ascii "MetaData matchKey {
+    zchar[1] crc `{ , }`,
+    float o `line1
+        line2`,
+    A stringy `" ++ [233]%N ++ runes_of_ascii "`,
+    u64 Logon `crlf
+        line`,
+}
+
+packet roots {
+    @lengthOf(u8x)
+    T @lengthOf(x) `// not a comment`,
+    x @calculatedFrom(""// no comment""),
+    @leftPad(' ')
+    zchar[0123456789] string_,
+}
+
+packet pack {
+    @tag(7)
+    repeat i64 charz,
+}")).
+Eval vm_compute in ("<<<M4019>>>" ++ check (runes_of_ascii "MetaData zchar {
+    charz tag `say ""hi""`,
+    char[10] string_,// 50% %s
+    u16 u8x `100% of %d`,
+    zchar[1] calculatedFrom `line1
+    line2`,
+    float32 string_ `" ++ [233]%N ++ runes_of_ascii "`,
+}
+
+packet Pad {
+    char[007] As,
+    As @calculatedFrom(""\" ++ [233]%N ++ runes_of_ascii """) `
+    `,
+    crc `100% of %d`,
+    // c
+    @tag(4294967296)
+    @calculatedFrom(""" ++ [128512]%N ++ runes_of_ascii """)
+    f32 u8x,
+}")).
+Eval vm_compute in ("<<<M1094>>>" ++ check (runes_of_ascii "options {
+    // a // b
+    Packet = ""{,}"" u8x = string
+    /// triple
+    ;  leftPad= '\x00'	; // trailing space 
+} packet options1
+{ match x as Foo { [ ""a\""b"" ,
+    7
+] : u128  """ ++ [128512]%N ++ runes_of_ascii """	: Packet ,
+}  , repeat pack len  `{ , }` , @tag(
+    4294967296 ) @lengthOf( Z9_) @tag(
+65535 )
+MetaDataX Z9_ , zchar[ 1	] metadata ,}
+//	t
+")).
+Eval vm_compute in ("<<<M4429>>>" ++ check (runes_of_ascii "  MetaData	charz{
+float32 u
+`say ""hi""` ,
+BodyLength
+    charz
+    `
+` ,
+
+char[ 10
+
+] Foo ,	int64
+
+float ,
+
+    i32  charz
+,
+
+    char[ // @lengthOf(
+007 
+	/// triple
+// trailing space 
+  	]zchar
+
+    `u8 x,`
+	,
 
     }
 
+options
+
+    { 
+  // a // b
+  BodyLength
+
+=
+	true ;
+	}
+    //
+	options {
+    }")).
+Eval vm_compute in ("<<<M366>>>" ++ check (runes_of_ascii "MetaData stringy
+    {	zchar[
+7	]x_y_z ,	zchar[ 007	]
+    A
+,
+string As
+`
+` , }root packet tag {
+@leftPad( )
+match // " ++ [27880; 37322]%N ++ runes_of_ascii "
+_x as _x	{	255 :
+// a // b
+// " ++ [27880; 37322]%N ++ runes_of_ascii "
+chars , 10  :
+    roots , 3
+: Foo,
+[
+    ""{,}"",
+//x
+// @lengthOf(
+""packet""
+] :u ,
+//x
+//
+00 :
+x_y_z
+    ,1 :
+    i64_ ,}
+    // 50% %s
+    , }")).
+Eval vm_compute in ("<<<M432>>>" ++ check (runes_of_ascii "MetaData BodyLength
+    {pack i64_	`a\`
+    , body a1 , int64
+    Pad, f64 Z9_
+,string
+falsey `
+` ,
+charz u ,
+    // `tick` ""quote"" 'q'
+    }
+    options
+{ stringy //	t
+= i32 ; } root packet x{	} MetaData A
+{i32	i8i8 ,asx int, msg_type	int
+,
+    // " ++ [128512]%N ++ runes_of_ascii " emoji
+    string uint8x
+    , }
+
 ")).
-Eval vm_compute in ("<<<M1815>>>" ++ check (runes_of_ascii "packet A {
+Eval vm_compute in ("<<<M1934>>>" ++ check (runes_of_ascii "packet	packetx { // trailing space 
+x_y_z
+{
+string
+charz ,
+string x// @lengthOf(
+`two words`
+    ,  u8x { // `tick` ""quote"" 'q'
+charz `100% of %d` // packet A { u8 x, }
+,string// " ++ [27880; 37322]%N ++ runes_of_ascii "
+,} , }
+    // a // b
+    packet metadata {  @leftPad ( '0') repeat i32 options1 ,u64 uint8x , }
+")).
+Eval vm_compute in ("<<<M1902>>>" ++ check (runes_of_ascii "packet	packetx { // trailing space 
+x_y_z
+{
+string
+charz ,
+string x// @lengthOf(
+`two words`
+    , ,  u8x { // `tick` ""quote"" 'q'
+charz `100% of %d` // packet A { u8 x, }
+,}// " ++ [27880; 37322]%N ++ runes_of_ascii "
+,} , }
+    // a // b
+    packet metadata {  @leftPad ( '0') repeat i32 options1 ,u64 uint8x , }
+")).
+Eval vm_compute in ("<<<M1863>>>" ++ check (runes_of_ascii "packet	packetx { // trailing space 
+{
+x_y_z
+string
+charz ,
+string x// @lengthOf(
+`two words`
+    ,  u8x { // `tick` ""quote"" 'q'
+charz `100% of %d` // packet A { u8 x, }
+,}// " ++ [27880; 37322]%N ++ runes_of_ascii "
+,} , }
+    // a // b
+    packet metadata {  @leftPad ( '0') repeat i32 options1 ,u64 uint8x , }
+")).
+Eval vm_compute in ("<<<M1998>>>" ++ check (runes_of_ascii "packet	packetx { // trailing space 
+x_y_z
+{
+string
+charz ,
+string x// @lengthOf(
+`two words`
+    ,  u8x { // `tick` ""quote"" 'q'
+charz `100% of %d` // packet A { u8 x, }
+,}// " ++ [27880; 37322]%N ++ runes_of_ascii "
+,} , }
+    // a // b
+    packet metadata {  @leftPad ( '0') repeat options1 i32 ,u64 uint8x , }
+")).
+Eval vm_compute in ("<<<M1974>>>" ++ check (runes_of_ascii "packet	packetx { // trailing space 
+x_y_z
+{
+string
+charz ,
+string x// @lengthOf(
+`two words`
+    ,  u8x { // `tick` ""quote"" 'q'
+charz `100% of %d` // packet A { u8 x, }
+,}// " ++ [27880; 37322]%N ++ runes_of_ascii "
+,} , }
+    // a // b
+    packet metadata {  '\x00' ( '0') repeat i32 options1 ,u64 uint8x , }
+")).
+Eval vm_compute in ("<<<M2100>>>" ++ check (runes_of_ascii "packet// packet A { u8 x, }
+repeatCount	{// packet A { u8 x, }
+@leftPad ( '\x00'
+) repeat u8x MetaDataX `crlf
+line` `crlf
+line`,
+    repeat
+    char[] MetaDataX
+    ,
+u64	uint8x@calculatedFrom(""a\""b""
+// c
+// packet A { u8 x, }
+) `tab	here`
+,//
+}MetaData pack
+    {
+    }
+")).
+Eval vm_compute in ("<<<M93>>>" ++ check (runes_of_ascii "options {
+    len = //
+i32 ;	}
+    options  { i64_ =  ' 'Foo =float32 ; chars
+= ""a\""b"" ; roots = 00 } packet rootA {
+// " ++ [128512]%N ++ runes_of_ascii " emoji
+/// triple
+uint64 o
+    /// triple
+    , repeat string Packet ,
+@leftPad
+( )
+    leftPad
+    @calculatedFrom( ""CRC32"" )
+, /// triple
+}
+
+")).
+Eval vm_compute in ("<<<M1429>>>" ++ check (runes_of_ascii "packet calculatedFrom
+{ @calculatedFrom( @calculatedFrom( ""a\\"" ) zchar[ 4294967296 ]
+calculatedFrom@lengthOf( pack )	`100% of %d` ,char[]body@calculatedFrom( ""// no comment"" )  ,
+@tag( 007) //x
+int8
+leftPad`it's` , repeat pack
+    { repeat char[ 3] body
+,},
+}")).
+Eval vm_compute in ("<<<M2180>>>" ++ check (runes_of_ascii "packet// packet A { u8 x, }
+repeatCount	{// packet A { u8 x, }
+@leftPad ( '\x00'
+) repeat u8x MetaDataX `crlf
+line`,
+    repeat
+    char[] MetaDataX
+    ,
+u64	uint8x@calculatedFrom(""a\""b""
+// c
+// packet A { u8 x, }
+) `tab	here`
+,//
+}MetaData pack
+    { {
+    }
+")).
+Eval vm_compute in ("<<<M2072>>>" ++ check (runes_of_ascii "packet// packet A { u8 x, }
+repeatCount	{// packet A { u8 x, }
+@leftPad } '\x00'
+) repeat u8x MetaDataX `crlf
+line`,
+    repeat
+    char[] MetaDataX
+    ,
+u64	uint8x@calculatedFrom(""a\""b""
+// c
+// packet A { u8 x, }
+) `tab	here`
+,//
+}MetaData pack
+    {
+    }
+")).
+Eval vm_compute in ("<<<M2079>>>" ++ check (runes_of_ascii "packet// packet A { u8 x, }
+repeatCount	{// packet A { u8 x, }
+@leftPad ( '\x00'
+ repeat u8x MetaDataX `crlf
+line`,
+    repeat
+    char[] MetaDataX
+    ,
+u64	uint8x@calculatedFrom(""a\""b""
+// c
+// packet A { u8 x, }
+) `tab	here`
+,//
+}MetaData pack
+    {
+    }
+")).
+Eval vm_compute in ("<<<M2147>>>" ++ check (runes_of_ascii "packet// packet A { u8 x, }
+repeatCount	{// packet A { u8 x, }
+@leftPad ( '\x00'
+) repeat u8x MetaDataX `crlf
+line`,
+    repeat
+    char[] MetaDataX
+    ,
+u64	uint8x@calculatedFrom([
+// c
+// packet A { u8 x, }
+) `tab	here`
+,//
+}MetaData pack
+    {
+    }
+")).
+Eval vm_compute in ("<<<M1534>>>" ++ check (runes_of_ascii "packet calculatedFrom
+{ @calculatedFrom( ""a\\"" ) zchar[ 4294967296 ]
+calculatedFrom@lengthOf( pack )	`100% of %d` ,char[]body@calculatedFrom( ""// no comment"" )  ,
+@tag( 007) //x
+int8 int8
+leftPad`it's` , repeat pack
+    { repeat char[ 3] body
+,},
+}")).
+Eval vm_compute in ("<<<M1454>>>" ++ check (runes_of_ascii "packet calculatedFrom
+{ @calculatedFrom( ""a\\"" ) zchar[ 4294967296 ] ]
+calculatedFrom@lengthOf( pack )	`100% of %d` ,char[]body@calculatedFrom( ""// no comment"" )  ,
+@tag( 007) //x
+int8
+leftPad`it's` , repeat pack
+    { repeat char[ 3] body
+,},
+}")).
+Eval vm_compute in ("<<<M1585>>>" ++ check (runes_of_ascii "packet calculatedFrom
+{ @calculatedFrom( ""a\\"" ) zchar[ 4294967296 ]
+calculatedFrom@lengthOf( pack )	`100% of %d` ,char[]body@calculatedFrom( ""// no comment"" )  ,
+@tag( 007) //x
+int8
+leftPad`it's` , repeat pack
+    { repeat char[ 3 body ]
+,},
+}")).
+Eval vm_compute in ("<<<M1485>>>" ++ check (runes_of_ascii "packet calculatedFrom
+{ @calculatedFrom( ""a\\"" ) zchar[ 4294967296 ]
+calculatedFrom@lengthOf( pack )	`100% of %d` char[],body@calculatedFrom( ""// no comment"" )  ,
+@tag( 007) //x
+int8
+leftPad`it's` , repeat pack
+    { repeat char[ 3] body
+,},
+}")).
+Eval vm_compute in ("<<<M1473>>>" ++ check (runes_of_ascii "packet calculatedFrom
+{ @calculatedFrom( ""a\\"" ) zchar[ 4294967296 ]
+calculatedFrom@lengthOf( pack 	`100% of %d` ,char[]body@calculatedFrom( ""// no comment"" )  ,
+@tag( 007) //x
+int8
+leftPad`it's` , repeat pack
+    { repeat char[ 3] body
+,},
+}")).
+Eval vm_compute in ("<<<M1558>>>" ++ check (runes_of_ascii "packet calculatedFrom
+{ @calculatedFrom( ""a\\"" ) zchar[ 4294967296 ]
+calculatedFrom@lengthOf( pack )	`100% of %d` ,char[]body@calculatedFrom( ""// no comment"" )  ,
+@tag( 007) //x
+int8
+leftPad`it's` , repeat 
+    { repeat char[ 3] body
+,},
+}")).
+Eval vm_compute in ("<<<M1990>>>" ++ check (runes_of_ascii "packet	packetx { // trailing space 
+x_y_z
+{
+string
+charz ,
+string x// @lengthOf(
+`two words`
+    ,  u8x { // `tick` ""quote"" 'q'
+charz `100% of %d` // packet A { u8 x, }
+,}// " ++ [27880; 37322]%N ++ runes_of_ascii "
+,} , }
+    // a // b
+    packet metadata {  @leftPad ( '0'")).
+Eval vm_compute in ("<<<M1582>>>" ++ check (runes_of_ascii "packet calculatedFrom
+{ @calculatedFrom( ""a\\"" ) zchar[ 4294967296 ]
+calculatedFrom@lengthOf( pack )	`100% of %d` ,char[]body@calculatedFrom( ""// no comment"" )  ,
+@tag( 007) //x
+int8
+leftPad`it's` , repeat pack
+    { repeat char[")).
+Eval vm_compute in ("<<<M194>>>" ++ check (runes_of_ascii "//x
+options{ falsey// " ++ [27880; 37322]%N ++ runes_of_ascii "
+=
+    00
+pack= // @lengthOf(
+'0'
+    x_y_z =""\" ++ [233]%N ++ runes_of_ascii """	; }
+    // " ++ [128512]%N ++ runes_of_ascii " emoji
+    options
+{ } root
+// " ++ [27880; 37322]%N ++ runes_of_ascii "
+// " ++ [27880; 37322]%N ++ runes_of_ascii "
+packet _x // @lengthOf(
+{ zchar[1 ]
+    len@calculatedFrom( // a // b
+""CRC32"" )`" ++ [28040; 24687; 31867; 22411]%N ++ runes_of_ascii "`, }")).
+Eval vm_compute in ("<<<M1352>>>" ++ check (runes_of_ascii "options
+{ pack =
+0123456789}
+    MetaData
+    // `tick` ""quote"" 'q'
+    metadata { u16 float , } packet As{ char[ 0123456789 ]repeatCount  , u32 _x
+`100% of %d` ,// a // b
+@tag( 3
+)
+    repeat i64 len `a\`,}
+")).
+Eval vm_compute in ("<<<M1196>>>" ++ check (runes_of_ascii "packet
+Header{
+}root
+packet leftPad{ @tag( 255 ) // a // b
+asx @calculatedFrom(""{,}"" ) // packet A { u8 x, }
+,f32 zchar
+, } packet roots {
+i32 x_y_z , @tag(4294967296)i8 //
+uint8x ,
+//
+// c
+} //")).
+Eval vm_compute in ("<<<M1547>>>" ++ check (runes_of_ascii "packet calculatedFrom
+{ @calculatedFrom( ""a\\"" ) zchar[ 4294967296 ]
+calculatedFrom@lengthOf( pack )	`100% of %d` ,char[]body@calculatedFrom( ""// no comment"" )  ,
+@tag( 007) //x
+int8
+leftPad")).
+Eval vm_compute in ("<<<M431>>>" ++ check (runes_of_ascii "root packet o { @tag( 7 )	repeat
+char[ 0 ]
+falsey ,  } options	{ MetaDataX = char[
+4294967296 ] u
+// @lengthOf(
+/// triple
+= '\x00' a1 = ""CRC32"" ; packetx
+=
+    /// triple
+    ""a\\""
+}
+")).
+Eval vm_compute in ("<<<M1290>>>" ++ check (runes_of_ascii "MetaData
+asx  {
+uint16 leftPad
+    ,  char[ 4294967296 ] matchKey `tab	here` ,	u32 options1
+// @lengthOf(
+/// triple
+, zchar[ 0 ] // @lengthOf(
+falsey `` ,
+char[
+10 ] u
+    , }")).
+Eval vm_compute in ("<<<M4488>>>" ++ check (runes_of_ascii "packet A {
     match k as n {
         [
-            1, 22, ""c c"", 4, 5,
-            ""f"", 7, 8
+            ""a"", ""bb"", ""c c"", ""d"", ""e"",
+            ""f"", ""g"", ""h"", ""i"", ""j"",
+            ""k""
         ] : B,
         2 : C,
     },
 }")).
-Eval vm_compute in ("<<<M2000>>>" ++ check (runes_of_ascii "packet A {
-    u16 len @lengthOf(body) `a
-        b`,
-    u32 crc @calculatedFrom(""CRC32"") `a
-        b`,
+Eval vm_compute in ("<<<M4102>>>" ++ check (runes_of_ascii "
+
+  options
+{len = true
+string_= 
+""a\\"" 
+repeatCount
+	=  //	t
+  ""{,}""
+;	uint8x
+	    //	t
+	//
+  =
+char[ 3 // " ++ [27880; 37322]%N ++ runes_of_ascii "
+	]
+} options
+{ 
+  // 50% %s
+	// a // b
+    }
+
+")).
+Eval vm_compute in ("<<<M1663>>>" ++ check (runes_of_ascii "options { } packet Packet{char[] char[] i64_ ,
+@tag(
+    255) match
+crc as i8i8{""{,}"" : trueish """" : Pad , ""a\\"" :
+Foo ,
+    1 :packetx
+, """ ++ [128512]%N ++ runes_of_ascii """ : trueish , } , }")).
+Eval vm_compute in ("<<<M2138>>>" ++ check (runes_of_ascii "packet// packet A { u8 x, }
+repeatCount	{// packet A { u8 x, }
+@leftPad ( '\x00'
+) repeat u8x MetaDataX `crlf
+line`,
+    repeat
+    char[] MetaDataX
+    ,
+u64")).
+Eval vm_compute in ("<<<M2394>>>" ++ check (runes_of_ascii "
+packet MetaDataX
+{
+    @leftPad
+( // a // b
+'0'
+) i8 u @lengthOf(
+MetaDataX
+    ) `say ""hi""` ,	} MetaData BodyLength {
+    asx
+x_y_z `" ++ [233]%N ++ runes_of_ascii "`
+, uint64 u128 , }
+%")).
+Eval vm_compute in ("<<<M3907>>>" ++ check (runes_of_ascii "
+options
+{
+    Packet
+
+    =
+	65535 BodyLength
+=  
+      // `tick` ""quote"" 'q'
+	  int64}
+options
+    {
+calculatedFrom
+
+= 
+'0'
+	; Packet = ""packet""	}
+")).
+Eval vm_compute in ("<<<M2352>>>" ++ check (runes_of_ascii "
+packet MetaDataX
+{
+    @leftPad
+( // a // b
+'0'
+) i8 u @lengthOf(
+MetaDataX
+    ) `say ""hi""` 	} MetaData BodyLength {
+    asx
+x_y_z `" ++ [233]%N ++ runes_of_ascii "`
+, uint64 u128 , }
+")).
+Eval vm_compute in ("<<<M2441>>>" ++ check (runes_of_ascii "
+packet MetaDataX
+{
+    @leftPad
+( // a // b
+'0'
+) i8 u @lengthOf(
+options
+    ) `say ""hi""` ,	} MetaData BodyLength {
+    asx
+x_y_z `" ++ [233]%N ++ runes_of_ascii "`
+, uint64 u128 , }
+")).
+Eval vm_compute in ("<<<M1760>>>" ++ check (runes_of_ascii "options { } packet Packet{char[] i64_ ,
+@tag(
+    255) match
+crc as i8i8{""{,}"" : trueish """" : Pad , ""a\\"" ,
+Foo ,
+    1 :packetx
+, """ ++ [128512]%N ++ runes_of_ascii """ : trueish , } , }")).
+Eval vm_compute in ("<<<M1757>>>" ++ check (runes_of_ascii "options { } packet Packet{char[] i64_ ,
+@tag(
+    255) match
+crc as i8i8{""{,}"" : trueish """" : Pad , ""a\\"" 
+Foo ,
+    1 :packetx
+, """ ++ [128512]%N ++ runes_of_ascii """ : trueish , } , }")).
+Eval vm_compute in ("<<<M3399>>>" ++ check (runes_of_ascii "// top
+packet // c0a
+  // c0b
+o // c1a
+  // c1b
+{
+    // c2
+@tag( 4294967296 ) options1
+    // c6
+@lengthOf( // c7
+u8x
+    // c8
+) // c9
+`" ++ [233]%N ++ runes_of_ascii "` , // c11
+} ")).
+Eval vm_compute in ("<<<M971>>>" ++ check (runes_of_ascii "packet crc
+{ @lengthOf( u128) @tag(1	) @calculatedFrom(
+// packet A { u8 x, }
+//	t
+""a\\"" )
+// 50% %s
+// " ++ [128512]%N ++ runes_of_ascii " emoji
+char[]x `say ""hi""` ,	} packet int { }")).
+Eval vm_compute in ("<<<M3773>>>" ++ check (runes_of_ascii "packet A {
+    Inner {
+        u8 x `tab
+                	x`,
+        Deep {
+            u8 y `tab
+                        	x`,
+        },
+    },
+}")).
+Eval vm_compute in ("<<<M1073>>>" ++ check (runes_of_ascii "root packet u128{ @rightPad (' '	)As @calculatedFrom(
+    """" // " ++ [27880; 37322]%N ++ runes_of_ascii "
+)
+    // trailing space 
+    `{ , }` ,
+} packet As {
+asx  `{ , }`
+    , }")).
+Eval vm_compute in ("<<<M3951>>>" ++ check (runes_of_ascii "packet A {
+    Inner {
+        u8 x `
+                `,
+        Deep {
+            u8 y `
+                        `,
+        },
+    },
+}")).
+Eval vm_compute in ("<<<M4276>>>" ++ check (runes_of_ascii "  MetaData
+float
+	{
+uint8
+BodyLength, 
+} MetaData
+    charz{ float32
+
+    trueish
+	`a\` ,
+
+i16 metadata
+    `say ""hi""`, } 	 // c
+")).
+Eval vm_compute in ("<<<M4336>>>" ++ check (runes_of_ascii "
+// " ++ [27880; 37322]%N ++ runes_of_ascii "
+      options  { }
+	packet
+	Foo/// triple
+
+{
+    match charz	as
+
+    body
+{4294967296
+:
+
+int
+, 
+}  , 	 // 50% %s
+		} ")).
+Eval vm_compute in ("<<<M3264>>>" ++ check (runes_of_ascii "MetaData metadata // c
+{ } MetaData rootA { i8 i64_ , roots options1 `a\` , lengthOf Header , Z9_ Foo , int16 BodyLength , }")).
+Eval vm_compute in ("<<<M3296>>>" ++ check (runes_of_ascii "MetaData metadata { } MetaData rootA { i8 i64_ , roots options1 `a\` , lengthOf Header , Z9_ // c
+Foo , int16 BodyLength , }")).
+Eval vm_compute in ("<<<M3829>>>" ++ check (runes_of_ascii "packet A {
+    u16 len @lengthOf(body) `
+        `,
+    u32 crc @calculatedFrom(""CRC32"") `
+        `,
     string body,
 }")).
-Eval vm_compute in ("<<<M1663>>>" ++ check (runes_of_ascii "
+Eval vm_compute in ("<<<M1340>>>" ++ check (runes_of_ascii "root packet stringy
+    { repeat //	t
+falsey
+uint8x , Pad@lengthOf(stringy ) , Pad @calculatedFrom(""{,}"")
+`" ++ [233]%N ++ runes_of_ascii "`,	}
+")).
+Eval vm_compute in ("<<<M3021>>>" ++ check (runes_of_ascii "packet A {
+  match k as n {
+    [""a"", ""bb"", 007, ""d"", ""e"", 66, ""g"", ""h"", 9, ""j"", ""k"", 12] : B,
+    2 : C
+  },
+}")).
+Eval vm_compute in ("<<<M3335>>>" ++ check (runes_of_ascii "MetaData float { uint8 BodyLength , } MetaData charz
+// c
+{ float32 trueish `a\` , i16 metadata `say ""hi""` , }")).
+Eval vm_compute in ("<<<M151>>>" ++ check (runes_of_ascii "  options {	A= true; pack=007 ; } options{
+BodyLength /// triple
+=true
+;  A = 1 ; repeatCount =
+char[00] }")).
+Eval vm_compute in ("<<<M3016>>>" ++ check (runes_of_ascii "packet A {
+  match k as n {
+    [1, ""bb"", 007, ""d"", 5, ""f"", 7, ""h"", 9, ""j"", 11, ""l""] : B
+    2 : C
+  },
+}")).
+Eval vm_compute in ("<<<M3809>>>" ++ check (runes_of_ascii "
 
   packet
+    A
 
-A { match 
-k as	n  {	[
-""a""
-, 22
-, ""c c"",
+{ match  k
 
-4  ,
-
-    ""e"" , 66 
+as n
+    {[
+    1 
 ,
+""bb""
 
-""g""
-,8
-	, ""i"",
-10
-, ""k"" ]	:	B
-2	:
-	C  },}")).
-Eval vm_compute in ("<<<M1585>>>" ++ check (runes_of_ascii "
-packet	calculatedFrom
-	{ 
-@tag(
-4294967296	)u	msg_type
-,
-char[ 3 ] crc  @lengthOf( 
-	// c
+,007
+    , ""d"",
 
-	len 
-)  `u8 x,` ,}
+5,
+""f"" ]  : 
+B 2 :
+C
+
+} ,
+}")).
+Eval vm_compute in ("<<<M3057>>>" ++ check (runes_of_ascii "packet A {
+    Inner {
+        u8 x `x
+`,
+        Deep {
+            u8 y `x
+`,
+        },
+    },
+}")).
+Eval vm_compute in ("<<<M1401>>>" ++ check (runes_of_ascii "
+packet
+Foo {
+    uint16 A	@calculatedFrom(  ""a\\""
+    )// packet A { u8 x, }
+`u8 x,` , }
+//	t
 ")).
-Eval vm_compute in ("<<<M1511>>>" ++ check (runes_of_ascii "
-packet o
-	{  @tag(42)	repeat
-
-    x { 
-        // c
-    char[ 
-0123456789
-    ]  i64_
-,
-
-    }	,  } options
-{} ")).
-Eval vm_compute in ("<<<M1101>>>" ++ check (runes_of_ascii "MetaData zchar // c1
-{ // c2a
-  // c2b
-zchar[ // c3a
-  // c3b
-3 ]
-    // c5
-Pad // c6
-, // c7a
-  // c7b
-} // c8
-")).
-Eval vm_compute in ("<<<M1330>>>" ++ check (runes_of_ascii "// top
-root
-    // c0
-packet P {
-    // c3
-char // c4
-c // c5
-,
-    // c6
-u8 // c7
-x // c8
-, // c9
-} // c10
-")).
-Eval vm_compute in ("<<<M897>>>" ++ check (runes_of_ascii "packet A {
+Eval vm_compute in ("<<<M2979>>>" ++ check (runes_of_ascii "packet A {
   match k as n {
-    [""a"", 22, ""c c"", 4, ""e"", 66, ""g"", 8, ""i"", 10, ""k""] : B
+    [""a"", 22, ""c c"", 4, ""e"", 66, ""g"", 8, ""i""] : B
     2 : C
   },
 }")).
-Eval vm_compute in ("<<<M1280>>>" ++ check (runes_of_ascii "packet calculatedFrom { @tag( 4294967296 ) u msg_type , char[ 3 ] crc @lengthOf(
-// c
-len ) `u8 x,` , }")).
-Eval vm_compute in ("<<<M883>>>" ++ check (runes_of_ascii "packet A {
-  match k as n {
-    [""a"", 22, ""c c"", 4, ""e"", 66, ""g"", 8, ""i"", 10] : B,
-    2 : C
-  },
+Eval vm_compute in ("<<<M775>>>" ++ check (runes_of_ascii "// `tick` ""quote"" 'q'
+packet BodyLength
+    // " ++ [27880; 37322]%N ++ runes_of_ascii "
+    {repeat i32 u  `` ,
+// " ++ [27880; 37322]%N ++ runes_of_ascii "
+// a // b
 }")).
-Eval vm_compute in ("<<<M176>>>" ++ check (runes_of_ascii "MetaData
-x_y_z
-{
-Logon
-    repeatCount `say ""hi""`,  crc
-    x_y_z
-,
-    char[	10 ] Foo  ,
+Eval vm_compute in ("<<<M732>>>" ++ check (runes_of_ascii "options  { Packet	= zchar[
+00
+    //
+    ]
+As ='\x00' ; leftPad
+= false ;rootA=float32 }")).
+Eval vm_compute in ("<<<M2232>>>" ++ check (runes_of_ascii "MetaData _x {string , `// not a comment` , string
+i64_ // trailing space 
+`a\` ,
+    }
+")).
+Eval vm_compute in ("<<<M681>>>" ++ check (runes_of_ascii "options {  } packet	crc { float32 BodyLength
+@calculatedFrom( ""\n"" )	,//x
+} // 50% %s")).
+Eval vm_compute in ("<<<M2254>>>" ++ check (runes_of_ascii "MetaData _x {string x `// not a comment` , string
+i64_ // trailing space 
+ ,
+    }
+")).
+Eval vm_compute in ("<<<M4097>>>" ++ check (runes_of_ascii "root packet trueish {
+    @tag(255)
+    // 50% %s
+    repeat f32a leftPad `doc`,
+}")).
+Eval vm_compute in ("<<<M3467>>>" ++ check (runes_of_ascii "options {
+    FixedStringPadFromLeft = true;
+}
+root packet P {
+    char[4] z,
 }
 ")).
-Eval vm_compute in ("<<<M1158>>>" ++ check (runes_of_ascii "packet Logon { @tag( 42 ) @rightPad ( ' ' ) @leftPad ( ) repeat trueish // c
-{ string T , } , }")).
-Eval vm_compute in ("<<<M868>>>" ++ check (runes_of_ascii "packet A {
-  match k as n {
-    [1, ""bb"", 007, ""d"", 5, ""f"", 7, ""h"", 9] : B,
-    2 : C
-  },
+Eval vm_compute in ("<<<M4370>>>" ++ check (runes_of_ascii "packet A {
+    match k as n {
+        [""a"", ""bb""] : B,
+        2 : C,
+    },
 }")).
-Eval vm_compute in ("<<<M282>>>" ++ check (runes_of_ascii "MetaData charz {
-Pad tag `two words` ,
-    u32 matchKey ,u128 Foo ,
-char[ 255 ] body ,}
+Eval vm_compute in ("<<<M3368>>>" ++ check (runes_of_ascii "MetaData _x { // c
+f64 charz `tab	here` , } options { BodyLength = """ ++ [233]%N ++ runes_of_ascii "t" ++ [233]%N ++ runes_of_ascii """ ; }")).
+Eval vm_compute in ("<<<M2269>>>" ++ check (runes_of_ascii "MetaData _x {string x `// not a comment` , string
+i64_ // trailing space 
 ")).
-Eval vm_compute in ("<<<M835>>>" ++ check (runes_of_ascii "packet A {
-  match k as n {
-    [""a"", ""bb"", 007, ""d"", ""e"", 66] : B,
-    2 : C
-  },
+Eval vm_compute in ("<<<M3227>>>" ++ check (runes_of_ascii "packet A {
+    match k as n {
+        1 : B // c
+        , // d
+    },
 }")).
-Eval vm_compute in ("<<<M1209>>>" ++ check (runes_of_ascii "packet
-// c
-o { @tag( 42 ) repeat x { char[ 0123456789 ] i64_ , } , } options { }")).
-Eval vm_compute in ("<<<M1241>>>" ++ check (runes_of_ascii "packet o { @tag( 42 ) repeat x { char[ 0123456789 ] i64_ , } , }
-// c
-options { }")).
-Eval vm_compute in ("<<<M1943>>>" ++ check (runes_of_ascii "MetaData// c
-  _x	{  zchar[
-    4294967296 ] lengthOf  `// not a comment` , }
-
+Eval vm_compute in ("<<<M1711>>>" ++ check (runes_of_ascii "options { } packet Packet{char[] i64_ ,
+@tag(
+    255) match
+crc as")).
+Eval vm_compute in ("<<<M3414>>>" ++ check (runes_of_ascii "packet o { @tag( 4294967296 ) options1 // c
+@lengthOf( u8x ) `" ++ [233]%N ++ runes_of_ascii "` , }")).
+Eval vm_compute in ("<<<M909>>>" ++ check (runes_of_ascii "options
+{	MetaDataX= 0123456789 ;pack
+    = ""{,}"" ;string_= i16 }")).
+Eval vm_compute in ("<<<M2754>>>" ++ check (runes_of_ascii "; char[] repeat int8 false 4294967296 int32 ' ' repeat options ;")).
+Eval vm_compute in ("<<<M1144>>>" ++ check (runes_of_ascii "//	t
+options {msg_type =
+// 50% %s
+//
+' ' ;
+    }
+// " ++ [128512]%N ++ runes_of_ascii " emoji
 ")).
-Eval vm_compute in ("<<<M826>>>" ++ check (runes_of_ascii "packet A {
-  match k as n {
-    [1, 22, 007, 4, 5, 66] : B
-    2 : C
-  },
+Eval vm_compute in ("<<<M2919>>>" ++ check (runes_of_ascii "packet A { Inner { match k as n { [1,22,007,4] : B, }, }, }")).
+Eval vm_compute in ("<<<M626>>>" ++ check (runes_of_ascii "packet
+    charz { u8
+//	t
+//	t
+_x
+    `
+` , // 50% %s
 }")).
-Eval vm_compute in ("<<<M747>>>" ++ check (runes_of_ascii "@rightPad zchar[ @leftPad uint8 i8 uint64 asx ; ; @lengthOf( root @tag(")).
-Eval vm_compute in ("<<<M1323>>>" ++ check (runes_of_ascii "MetaData _x { zchar[ 4294967296 ] lengthOf `// not a comment` // c
-, }")).
-Eval vm_compute in ("<<<M1480>>>" ++ check (runes_of_ascii "MetaData _x {
-    zchar[4294967296] lengthOf `// not a comment`,
-}")).
-Eval vm_compute in ("<<<M1833>>>" ++ check (runes_of_ascii "MetaData matchKey {
-    u64 chars,
-    char[] lengthOf,//	t
-}")).
-Eval vm_compute in ("<<<M57>>>" ++ check (runes_of_ascii "MetaData stringy { uint8
-//x
-// @lengthOf(
-string_
-, }
+Eval vm_compute in ("<<<M2309>>>" ++ check (runes_of_ascii "
+MetaData Pad{
+u32 rootA rootA `line1
+line2` ,
+    }
 ")).
-Eval vm_compute in ("<<<M944>>>" ++ check (runes_of_ascii "MetaData M {
+Eval vm_compute in ("<<<M3867>>>" ++ check (runes_of_ascii "packet A {
     u8 x `a
-
-b`,
-    T t `a
-
-b`,
+            b
+          c`,
 }")).
-Eval vm_compute in ("<<<M1994>>>" ++ check (runes_of_ascii "MetaData M
+Eval vm_compute in ("<<<M4180>>>" ++ check (runes_of_ascii "
 
-{ u8
-x `x
-`	, T t  `x
-`
-, 
-}")).
-Eval vm_compute in ("<<<M311>>>" ++ check (runes_of_ascii "MetaData x_y_z { string options1 , }
+  packet A
+    {
+	@tag( // a
+  1)	u8
+x
+,
+    } ")).
+Eval vm_compute in ("<<<M2295>>>" ++ check (runes_of_ascii "
+MetaData {Pad
+u32 rootA `line1
+line2` ,
+    }
 ")).
-Eval vm_compute in ("<<<M921>>>" ++ check (runes_of_ascii "root packet A {
+Eval vm_compute in ("<<<M4122>>>" ++ check (runes_of_ascii "options {
+    a = 1;
+}
+
+options {
+    a = 1;
+}")).
+Eval vm_compute in ("<<<M3934>>>" ++ check (runes_of_ascii "packet A {
     u8 x `a
-b`,
+        b
+      c`,
 }")).
-Eval vm_compute in ("<<<M756>>>" ++ check ([65533]%N ++ runes_of_ascii "\" ++ [18]%N ++ runes_of_ascii "7" ++ [65533; 65533; 65533]%N ++ runes_of_ascii "W" ++ [65533; 65533]%N ++ runes_of_ascii "I" ++ [65533; 65533]%N ++ runes_of_ascii "9," ++ [65533]%N ++ runes_of_ascii "w" ++ [14; 65533]%N ++ runes_of_ascii "D" ++ [65533; 65533]%N ++ runes_of_ascii "H" ++ [65533; 65533; 65533]%N ++ runes_of_ascii "r" ++ [65533; 65533; 65533]%N)).
-Eval vm_compute in ("<<<M66>>>" ++ check (runes_of_ascii "packet Foo{ f64 Pad ,x
-, }")).
-Eval vm_compute in ("<<<M1189>>>" ++ check (runes_of_ascii "options { u8x // c
-= 3 }")).
-Eval vm_compute in ("<<<M94>>>" ++ check (runes_of_ascii "  options //x
-{} 	 ")).
-Eval vm_compute in ("<<<M1001>>>" ++ check (runes_of_ascii "// c" ++ [8192]%N ++ runes_of_ascii "
-packet A {
+Eval vm_compute in ("<<<M656>>>" ++ check (runes_of_ascii "  packet
+    f32a
+{ stringy`tab	here` , }")).
+Eval vm_compute in ("<<<M3236>>>" ++ check (runes_of_ascii "MetaData zchar
+// c
+{ zchar[ 3 ] Pad , }")).
+Eval vm_compute in ("<<<M2841>>>" ++ check (runes_of_ascii " %i:?mzDnjJos&s2{dih&|boM|e;6s?r4/y(^W")).
+Eval vm_compute in ("<<<M2721>>>" ++ check (runes_of_ascii "Tqw6\RO}Mcbo,K| +RxyiqgL_H""U%uU~9}k~")).
+Eval vm_compute in ("<<<M2855>>>" ++ check (runes_of_ascii "repeat uint8 ; string int16 `" ++ [233]%N ++ runes_of_ascii "` i64")).
+Eval vm_compute in ("<<<M1209>>>" ++ check (runes_of_ascii "/// triple
+ // `tick` ""quote"" 'q'")).
+Eval vm_compute in ("<<<M3632>>>" ++ check (runes_of_ascii "packet A {
+    u8 x `d" ++ [133]%N ++ runes_of_ascii "`,// c" ++ [133]%N ++ runes_of_ascii "
 }")).
-Eval vm_compute in ("<<<M978>>>" ++ check (runes_of_ascii "packet A {
-}// c" ++ [12288]%N)).
-Eval vm_compute in ("<<<M1832>>>" ++ check (runes_of_ascii "packet A {
+Eval vm_compute in ("<<<M3181>>>" ++ check (runes_of_ascii "packet A {
+ u8 x `d" ++ [65279]%N ++ runes_of_ascii "`, // c" ++ [65279]%N ++ runes_of_ascii "
 }")).
-Eval vm_compute in ("<<<M1009>>>" ++ check (runes_of_ascii "// c" ++ [8232]%N)).
+Eval vm_compute in ("<<<M4417>>>" ++ check (runes_of_ascii "root packet x {
+}
+/// triple")).
+Eval vm_compute in ("<<<M2613>>>" ++ check (runes_of_ascii "packet A { u8 x @tag(1), }")).
+Eval vm_compute in ("<<<M3893>>>" ++ check (runes_of_ascii "
+packet	A	{ 
+}  // c" ++ [12]%N ++ runes_of_ascii "
+ 
+")).
+Eval vm_compute in ("<<<M3762>>>" ++ check (runes_of_ascii "
+
+  packet
+	lengthOf {}")).
+Eval vm_compute in ("<<<M374>>>" ++ check (runes_of_ascii "
+root packet
+u {} 	 ")).
+Eval vm_compute in ("<<<M2659>>>" ++ check (runes_of_ascii "root MetaData M { }")).
+Eval vm_compute in ("<<<M3134>>>" ++ check (runes_of_ascii "packet A {
+}
+// c" ++ [8202]%N)).
+Eval vm_compute in ("<<<M450>>>" ++ check (runes_of_ascii "MetaData f32a { }")).
+Eval vm_compute in ("<<<M4533>>>" ++ check (runes_of_ascii "packet falsey {
+}")).
+Eval vm_compute in ("<<<M3821>>>" ++ check (runes_of_ascii "packet pack {
+}")).
+Eval vm_compute in ("<<<M706>>>" ++ check (runes_of_ascii "
+// " ++ [128512]%N ++ runes_of_ascii " emoji
+")).
+Eval vm_compute in ("<<<M2655>>>" ++ check (runes_of_ascii "packet A {")).
+Eval vm_compute in ("<<<M2873>>>" ++ check (runes_of_ascii "-k#c~kZ ")).
+Eval vm_compute in ("<<<M2453>>>" ++ check (runes_of_ascii "zchar[")).
+Eval vm_compute in ("<<<M2531>>>" ++ check (runes_of_ascii """a
+b""")).
+Eval vm_compute in ("<<<M2498>>>" ++ check (runes_of_ascii "'  '")).
+Eval vm_compute in ("<<<M2518>>>" ++ check (runes_of_ascii "/ /")).
+Eval vm_compute in ("<<<M2517>>>" ++ check (runes_of_ascii "//")).
+Eval vm_compute in ("<<<M2697>>>" ++ check (runes_of_ascii "1")).
